@@ -1,15 +1,1069 @@
-"""C07 — every request sample reaches the metrics store exactly once (DESIGN.md section 4, C07)."""
+"""C07 — every request sample reaches the metrics store exactly once (DESIGN.md section 4, C07).
+
+Two local engines (candidates for sa/): `_Expand` analyses a routine together with the helper methods it calls (structural copy with the helper bodies in place),
+`_Interp` evaluates extracted routines on representative values and records the calls of unmodelled callees as effects (statement-level extension of sa/minieval)."""
 from __future__ import annotations
 
 import ast
 
 from sa import source
 from sa.cfg import cfg_of, guards
-from sa.source import AnchorMissing, arg_of, dotted, is_self_attr, last_attr, local_defs, package_calls, params_of, short, u, walk_body
+from sa.source import AnchorMissing, arg_of, dotted, is_self_attr, last_attr, local_defs, params_of, short, u, walk_body
 
 _D = "esrally/driver/driver.py"
 _M = "esrally/metrics.py"
 _R = "esrally/racecontrol.py"
+
+
+# =====================================================================================================================================================
+# Local engine 1: a routine analysed TOGETHER with the helper methods it calls.
+# `_Expand(mod, cls).function(f)` returns a structural copy of method f (source positions and module kept, so sites / CFG / guards work as on the original)
+# in which calls of helper methods of the same class are replaced by the helper's body: `self.h(a, b)` as a statement, `x = self.h(..)`, `return self.h(..)`,
+# and - for helpers that consist of one `return E` - anywhere in an expression. An "extract method" refactoring is thereby invisible to the rules that
+# work on the expanded copy. Only helpers all of whose returns are in tail position are expanded (after N8 every guard clause is an if/else, so that is the
+# common case); anything else stays a call.
+
+_KEEP_ATTRS = ("lineno", "col_offset", "end_lineno", "end_col_offset", "_module", "_synthetic_arm", "_from_constant")
+
+
+def _copy(n):
+    """structural copy of an AST (no parent links are followed, positions / module / normalisation marks are kept)."""
+    if isinstance(n, list):
+        return [_copy(x) for x in n]
+    if not isinstance(n, ast.AST):
+        return n
+    new = type(n)()
+    for f in n._fields:
+        if hasattr(n, f):
+            setattr(new, f, _copy(getattr(n, f)))
+    for a in _KEEP_ATTRS:
+        if hasattr(n, a):
+            setattr(new, a, getattr(n, a))
+    return new
+
+
+def _at(new, old):
+    """new node placed where old is (positions + module)."""
+    for x in ast.walk(new):
+        for a in ("lineno", "col_offset", "end_lineno", "end_col_offset", "_module"):
+            if not hasattr(x, a) and hasattr(old, a):
+                setattr(x, a, getattr(old, a))
+    return new
+
+
+def _simple(e):
+    """an argument that can be substituted for a parameter without changing what is evaluated: names, attribute chains, literals."""
+    return all(isinstance(x, (ast.Name, ast.Attribute, ast.Constant, ast.Load)) for x in ast.walk(e))
+
+
+def _tail_only(stmts):
+    """every `return` of the statement list is in tail position (so that dropping it / turning it into an assignment keeps the control flow)."""
+    for i, s in enumerate(stmts):
+        last = i == len(stmts) - 1
+        if isinstance(s, ast.Return):
+            if not last:
+                return False
+        elif last and isinstance(s, ast.If):
+            if not (_tail_only(s.body) and _tail_only(s.orelse)):
+                return False
+        elif last and isinstance(s, (ast.With, ast.AsyncWith)):
+            if not _tail_only(s.body):
+                return False
+        elif any(isinstance(x, ast.Return) for x in source.walk_local(s)):
+            return False
+    return True
+
+
+class _Expand:
+    def __init__(self, mod, cls, keep=(), depth=4):
+        self.mod, self.cls = mod, cls
+        self.methods = mod.methods(cls)
+        self.keep = set(keep)
+        self.depth = depth
+        self.inlined = set()  # names of the helpers that were expanded somewhere
+        self._k = 0
+
+    def function(self, f):
+        new = _copy(f)
+        self.names = {x.id for x in ast.walk(f) if isinstance(x, ast.Name)} | {a.arg for a in ast.walk(f) if isinstance(a, ast.arg)}
+        ps = params_of(f)
+        self.selfname = ps[0] if ps else None
+        new.body = self._block(new.body, (f.name,), self.depth)
+        source.set_parents(new)
+        new._parent = source.parent(f)
+        new._expanded_from = f
+        return new
+
+    # -- which calls are helper calls -----------------------------------------------------------------------------------------------------------------
+    def _helper(self, call, stack):
+        if not (isinstance(call, ast.Call) and isinstance(call.func, ast.Attribute) and isinstance(call.func.value, ast.Name) and call.func.value.id == self.selfname):
+            return None
+        h = self.methods.get(call.func.attr)
+        if h is None or h.name in self.keep or h.name in stack or h.decorator_list or h.args.vararg or h.args.kwarg:
+            return None
+        if any(isinstance(a, ast.Starred) for a in call.args) or any(k.arg is None for k in call.keywords):
+            return None
+        if any(isinstance(x, (ast.Yield, ast.YieldFrom, ast.Global, ast.Nonlocal)) for x in walk_body(h)):
+            return None
+        hp = set(params_of(h)) | {a.arg for a in h.args.kwonlyargs}
+        if any(isinstance(x, ast.arg) and x.arg in hp for st in h.body for x in ast.walk(st)):  # a nested scope re-binds a parameter name
+            return None
+        return h
+
+    def _bind(self, h, call):
+        """parameter -> argument expression (defaults for the parameters the call leaves out); None if some parameter stays unbound."""
+        b = source.bind_args(call, h)
+        ps = params_of(h)[1:]
+        for p, d in zip(reversed(ps), reversed(h.args.defaults)):
+            b.setdefault(p, d)
+        for a, d in zip(h.args.kwonlyargs, h.args.kw_defaults):
+            if d is not None:
+                b.setdefault(a.arg, d)
+        want = ps + [a.arg for a in h.args.kwonlyargs]
+        if any(p not in b for p in want) or len(call.args) > len(ps):
+            return None
+        return b
+
+    def _instantiate(self, h, call, nodes, stmt_level):
+        """copies of `nodes` (statements or one expression of helper h) with parameters replaced by the arguments of `call` and clashing locals renamed.
+        Returns (assignments to run first, copies) or None."""
+        b = self._bind(h, call)
+        if b is None:
+            return None
+        stored = {x.id for st in h.body for x in ast.walk(st) if isinstance(x, ast.Name) and isinstance(x.ctx, (ast.Store, ast.Del))}
+        loads = {}
+        for st in nodes:
+            for x in ast.walk(st):
+                if isinstance(x, ast.Name) and isinstance(x.ctx, ast.Load):
+                    loads[x.id] = loads.get(x.id, 0) + 1
+        subst, rename, pre = {}, {}, []
+        self._k += 1
+        for p, a in b.items():
+            if p not in stored and (_simple(a) or (not stmt_level and loads.get(p, 0) <= 1)):
+                subst[p] = a
+            elif stmt_level:
+                fresh = p if p not in self.names else f"{p}__{h.name}{self._k}"
+                self.names.add(fresh)
+                rename[p] = fresh
+                pre.append(_at(ast.Assign(targets=[ast.Name(id=fresh, ctx=ast.Store())], value=_copy(a)), call))
+            else:
+                return None
+        for nm in stored - set(b):
+            if nm in self.names:
+                rename[nm] = f"{nm}__{h.name}{self._k}"
+            self.names.add(rename.get(nm, nm))
+        hs = params_of(h)[0]
+        if hs != self.selfname:
+            rename[hs] = self.selfname
+
+        class S(ast.NodeTransformer):
+            def visit_Name(self, n):
+                if isinstance(n.ctx, ast.Load) and n.id in subst:
+                    return _copy(subst[n.id])
+                if n.id in rename:
+                    return _at(ast.Name(id=rename[n.id], ctx=n.ctx), n)
+                return n
+
+        return pre, [S().visit(_copy(st)) for st in nodes]
+
+    @staticmethod
+    def _body(h):
+        b = h.body
+        return b[1:] if b and isinstance(b[0], ast.Expr) and isinstance(b[0].value, ast.Constant) and isinstance(b[0].value.value, str) else b
+
+    # -- expression level: helpers that are one `return E` ----------------------------------------------------------------------------------------------
+    def _expr(self, e, stack, depth):
+        if e is None or depth <= 0:
+            return e
+        me = self
+
+        class X(ast.NodeTransformer):
+            def visit_Lambda(self, n):
+                return n
+
+            def visit_Call(self, n):
+                self.generic_visit(n)
+                h = me._helper(n, stack)
+                if h is None or isinstance(h, ast.AsyncFunctionDef):
+                    return n
+                body = me._body(h)
+                if not (len(body) == 1 and isinstance(body[0], ast.Return) and body[0].value is not None):
+                    return n
+                r = me._instantiate(h, n, [body[0].value], stmt_level=False)
+                if r is None:
+                    return n
+                me.inlined.add(h.name)
+                return me._expr(r[1][0], stack + (h.name,), depth - 1)
+
+        return X().visit(e)
+
+    # -- statement level ----------------------------------------------------------------------------------------------------------------------------------
+    def _block(self, stmts, stack, depth):
+        out = []
+        for s in stmts:
+            out += self._stmt(s, stack, depth)
+        return out or [ast.Pass(lineno=0, col_offset=0, end_lineno=0, end_col_offset=0)]
+
+    def _rewrite_returns(self, stmts, mode, targets):
+        """tail returns of an expanded body: dropped (mode 'expr'), turned into the caller's assignment (mode 'assign') or kept (mode 'return')."""
+        if mode == "return" or not stmts:
+            return stmts
+        last = stmts[-1]
+        if isinstance(last, ast.Return):
+            if mode == "assign":
+                new = [_at(ast.Assign(targets=_copy(targets), value=last.value if last.value is not None else ast.Constant(value=None)), last)]
+            else:
+                new = [_at(ast.Expr(value=last.value), last)] if last.value is not None and any(isinstance(x, (ast.Call, ast.Await)) for x in ast.walk(last.value)) else []
+            return stmts[:-1] + (new or ([] if stmts[:-1] else [_at(ast.Pass(), last)]))
+        if isinstance(last, ast.If):
+            last.body = self._rewrite_returns(last.body, mode, targets) or [_at(ast.Pass(), last)]
+            if last.orelse:
+                last.orelse = self._rewrite_returns(last.orelse, mode, targets)
+        elif isinstance(last, (ast.With, ast.AsyncWith)):
+            last.body = self._rewrite_returns(last.body, mode, targets) or [_at(ast.Pass(), last)]
+        return stmts
+
+    def _stmt(self, s, stack, depth):
+        # headers / simple statements: expression-level helpers first
+        if isinstance(s, (ast.FunctionDef, ast.AsyncFunctionDef, ast.ClassDef)):
+            return [s]
+        for fld in ("value", "test", "iter", "subject", "exc", "msg"):
+            v = getattr(s, fld, None)
+            if isinstance(v, ast.AST):
+                setattr(s, fld, self._expr(v, stack, depth))
+        if isinstance(s, (ast.With, ast.AsyncWith)):
+            for it in s.items:
+                it.context_expr = self._expr(it.context_expr, stack, depth)
+        # a whole-statement helper call
+        if depth > 0 and isinstance(s, (ast.Expr, ast.Assign, ast.Return)) and s.value is not None:
+            call = s.value.value if isinstance(s.value, ast.Await) else s.value
+            h = self._helper(call, stack)
+            if h is not None and isinstance(h, ast.AsyncFunctionDef) == isinstance(s.value, ast.Await):
+                body = self._body(h)
+                mode = "expr" if isinstance(s, ast.Expr) else "assign" if isinstance(s, ast.Assign) else "return"
+                valued = any(isinstance(x, ast.Return) and x.value is not None for st in body for x in source.walk_local(st))
+                if _tail_only(body) and (mode == "expr" or source._terminates(body) or not valued):
+                    r = self._instantiate(h, call, body, stmt_level=True)
+                    if r is not None:
+                        pre, new = r
+                        self.inlined.add(h.name)
+                        falls = not source._terminates(new)
+                        new = self._rewrite_returns(new, mode, s.targets if mode == "assign" else None)
+                        if falls and mode == "assign":
+                            new = new + [_at(ast.Assign(targets=_copy(s.targets), value=ast.Constant(value=None)), s)]
+                        elif falls and mode == "return":
+                            new = new + [_at(ast.Return(value=None), s)]
+                        return pre + self._block(new, stack + (h.name,), depth - 1)
+        for fld in ("body", "orelse", "finalbody"):
+            b = getattr(s, fld, None)
+            if isinstance(b, list) and b and isinstance(b[0], ast.stmt):
+                setattr(s, fld, self._block(b, stack, depth))
+        if isinstance(s, ast.Try):
+            for hd in s.handlers:
+                hd.body = self._block(hd.body, stack, depth)
+        if isinstance(s, ast.Match):
+            for c in s.cases:
+                c.body = self._block(c.body, stack, depth)
+        return [s]
+
+
+# =====================================================================================================================================================
+# Local engine 2: evaluation of EXTRACTED routines on representative values (in the spirit of sa/minieval, extended to statements).
+# Nothing of the repository is imported or run: the evaluator walks the parsed source. Values are Python literals / lists / dicts, `_O` objects with named
+# fields (their methods and properties are looked up in the parsed class and evaluated the same way) and `_T` terms: results of calls / attributes the
+# evaluator does not model (clock reads, loggers, the metrics store, unit conversion ...), compared structurally. Every call of such an unmodelled callee is
+# recorded as an EFFECT (dotted path, argument values, the loop elements it ran under). A branch on an unknown value is explored both ways (`_explore`);
+# whatever cannot be evaluated raises `_Undecided` - the obligation is then "not recognised", never falsified.
+# Helper extraction, loop vs comprehension, enumerate vs index arithmetic, keyword vs positional arguments, renamed locals / parameters and table
+# dispatch all evaluate to the same effects, which is the point.
+
+
+class _Undecided(Exception):
+    pass
+
+
+class _Need(Exception):
+    """a branch on an unknown value that the current decision sequence does not cover"""
+
+
+class _Ret(Exception):
+    def __init__(self, v):
+        self.v = v
+
+
+class _Brk(Exception):
+    pass
+
+
+class _Cnt(Exception):
+    pass
+
+
+class _Raised(Exception):
+    def __init__(self, v):
+        self.v = v
+
+
+class _T:
+    """uninterpreted value; structural equality"""
+
+    def __init__(self, op, *args):
+        self.op, self.args = op, args
+
+    def path(self):
+        if self.op in ("global", "obj"):
+            return str(self.args[0])
+        if self.op == "attr":
+            b = self.args[0].path() if isinstance(self.args[0], _T) else (self.args[0].name if isinstance(self.args[0], _O) else None)
+            return None if b is None else f"{b}.{self.args[1]}"
+        return None
+
+    def __eq__(self, o):
+        return isinstance(o, _T) and self.op == o.op and len(self.args) == len(o.args) and all(_same(a, b) for a, b in zip(self.args, o.args))
+
+    def __hash__(self):
+        return hash(self.op)
+
+    def __repr__(self):
+        p = self.path()
+        if p:
+            return f"<{p}>"
+        if self.op == "call":
+            return f"{self.args[0]!r}({', '.join(repr(a) for a in self.args[1])})"
+        return f"<{self.op} {', '.join(repr(a)[:40] for a in self.args)}>"
+
+
+def _same(a, b):
+    if isinstance(a, (_T, _O)) or isinstance(b, (_T, _O)):
+        return a is b or (isinstance(a, _T) and isinstance(b, _T) and a == b)
+    if isinstance(a, (list, tuple)) and isinstance(b, (list, tuple)):
+        return type(a) is type(b) and len(a) == len(b) and all(_same(x, y) for x, y in zip(a, b))
+    if isinstance(a, dict) and isinstance(b, dict):
+        return a.keys() == b.keys() and all(_same(a[k], b[k]) for k in a)
+    return type(a) is type(b) and a == b or (isinstance(a, (int, float)) and isinstance(b, (int, float)) and not isinstance(a, bool) and not isinstance(b, bool) and a == b)
+
+
+class _O:
+    """an object with named fields; cls / mod: the parsed class its methods and properties are looked up in (optional)"""
+
+    def __init__(self, _name, _cls=None, _mod=None, _on_read=None, **fields):
+        self.name, self.cls, self.mod, self.f, self.on_read = _name, _cls, _mod, dict(fields), dict(_on_read or {})
+
+    def __repr__(self):
+        return f"<{self.name}>"
+
+
+class _Fn:
+    def __init__(self, node, mod, bound=None, env=None):
+        self.node, self.mod, self.bound, self.env = node, mod, bound, env
+
+
+class _Cls:
+    def __init__(self, node, mod):
+        self.node, self.mod = node, mod
+
+
+class _PyM:
+    def __init__(self, recv, name):
+        self.recv, self.name = recv, name
+
+
+class _Eff:
+    def __init__(self, path, args, kwargs, ctx, node, state):
+        self.path, self.args, self.kwargs, self.ctx, self.node, self.state = path, args, kwargs, ctx, node, state
+        self.name = path.rsplit(".", 1)[-1] if path else ""
+
+
+_PY_METHODS = {
+    list: {"append", "extend", "insert", "pop", "clear", "copy", "index", "count", "reverse", "remove"},
+    dict: {"get", "items", "keys", "values", "update", "pop", "setdefault", "copy", "clear"},
+    str: {"join", "split", "startswith", "endswith", "lower", "upper", "strip", "lstrip", "rstrip", "replace", "format"},
+    tuple: {"index", "count"},
+    set: {"add", "update", "discard", "remove", "copy", "clear"},
+}
+_BUILTINS = {"len": len, "range": range, "list": list, "dict": dict, "tuple": tuple, "set": set, "sorted": sorted, "min": min, "max": max, "sum": sum, "abs": abs,
+             "round": round, "int": int, "float": float, "bool": bool, "reversed": lambda x: list(reversed(x)), "any": any, "all": all}
+_BIN = {ast.Add: lambda a, b: a + b, ast.Sub: lambda a, b: a - b, ast.Mult: lambda a, b: a * b, ast.Div: lambda a, b: a / b, ast.FloorDiv: lambda a, b: a // b,
+        ast.Mod: lambda a, b: a % b, ast.Pow: lambda a, b: a ** b, ast.BitOr: lambda a, b: a | b, ast.BitAnd: lambda a, b: a & b, ast.LShift: lambda a, b: a << b, ast.RShift: lambda a, b: a >> b}
+_CMPS = {ast.Eq: lambda a, b: a == b, ast.NotEq: lambda a, b: a != b, ast.Lt: lambda a, b: a < b, ast.LtE: lambda a, b: a <= b, ast.Gt: lambda a, b: a > b, ast.GtE: lambda a, b: a >= b}
+
+
+def _opaque(v):
+    return isinstance(v, (_T, _O, _Fn, _Cls, _PyM))
+
+
+class _Interp:
+    def __init__(self, mods, oracle=()):
+        self.mods = list(mods)
+        self.oracle, self.taken, self.memo = list(oracle), 0, {}
+        self.effects, self.ctx, self.steps, self.depth = [], [], 0, 0
+        self.modstack = []
+        self.watch = None  # optional callable() -> state recorded with every effect
+        self.opaque = set()  # names of classes whose instances are not modelled (their method calls are effects)
+        self.model = None  # optional callable(path, args, kwargs) -> value the rule supplies for an unmodelled call (NotImplemented: none)
+        self.frames = [[]]  # per statement in execution (one per active routine and enclosing compound statement): the objects whose fields its own expressions read
+
+    # -- decisions on unknown values ---------------------------------------------------------------------------------------------------------------
+    def truth(self, v):
+        if isinstance(v, _T):
+            k = repr(v)
+            if k not in self.memo:
+                if self.taken >= len(self.oracle):
+                    raise _Need()
+                self.memo[k] = self.oracle[self.taken]
+                self.taken += 1
+            return self.memo[k]
+        if isinstance(v, (_O, _Fn, _Cls, _PyM)):
+            return True
+        return bool(v)
+
+    # -- names -------------------------------------------------------------------------------------------------------------------------------------------
+    def lookup(self, name, env):
+        e = env
+        while e is not None:
+            if name in e["v"]:
+                return e["v"][name]
+            e = e["up"]
+        for m in ([self.modstack[-1]] if self.modstack else []) + self.mods:
+            for st in m.tree.body:
+                if isinstance(st, ast.ClassDef) and st.name == name:
+                    return _Cls(st, m)
+                if isinstance(st, source.FUNC_TYPES) and st.name == name:
+                    return _Fn(st, m)
+        if name in _BUILTINS or name in ("enumerate", "zip", "isinstance", "getattr", "hasattr", "str", "print", "iter", "next", "map", "filter", "type", "id", "repr"):
+            return _T("builtin", name)
+        return _T("global", name)
+
+    def class_attr(self, cls, mod, name, seen=None):
+        """function / class-level assignment `name` of the parsed class (bases by name in the known modules)."""
+        for st in cls.body:
+            if isinstance(st, source.FUNC_TYPES) and st.name == name:
+                return st, mod
+        for b in cls.bases:
+            bn = last_attr(b)
+            for m in [mod] + self.mods:
+                for st in m.tree.body:
+                    if isinstance(st, ast.ClassDef) and st.name == bn and st is not cls:
+                        r = self.class_attr(st, m, name)
+                        if r is not None:
+                            return r
+        return None
+
+    # -- expressions -----------------------------------------------------------------------------------------------------------------------------------
+    def ev(self, e, env):
+        self.steps += 1
+        if self.steps > 400000:
+            raise _Undecided("evaluation budget exhausted")
+        m = getattr(self, "e_" + type(e).__name__, None)
+        if m is None:
+            raise _Undecided(f"expression {type(e).__name__}: {short(e, 60)}")
+        return m(e, env)
+
+    def e_Constant(self, e, env):
+        return e.value
+
+    def e_Name(self, e, env):
+        return self.lookup(e.id, env)
+
+    def e_Await(self, e, env):
+        return self.ev(e.value, env)
+
+    def e_NamedExpr(self, e, env):
+        v = self.ev(e.value, env)
+        env["v"][e.target.id] = v
+        return v
+
+    def e_Attribute(self, e, env):
+        return self.getattr(self.ev(e.value, env), e.attr)
+
+    def getattr(self, v, a):
+        if isinstance(v, _O):
+            self.frames[-1].append(v)
+            if a in v.on_read:
+                return v.on_read[a]()
+            if a in v.f:
+                return v.f[a]
+            if v.cls is not None:
+                r = self.class_attr(v.cls, v.mod, a)
+                if r is not None:
+                    fn, mod = r
+                    decos = [dotted(d) or "" for d in fn.decorator_list]
+                    if "property" in decos:
+                        return self.call_fn(_Fn(fn, mod, v), [], {}, fn)
+                    if "staticmethod" in decos:
+                        return _Fn(fn, mod)
+                    return _Fn(fn, mod, v)
+            return _T("attr", v, a)
+        if isinstance(v, _T):
+            return _T("attr", v, a)
+        if isinstance(v, _Cls):
+            r = self.class_attr(v.node, v.mod, a)
+            if r is not None:
+                return _Fn(r[0], r[1])
+            for st in v.node.body:
+                if isinstance(st, ast.Assign) and any(isinstance(t, ast.Name) and t.id == a for t in st.targets):
+                    return self.ev(st.value, {"v": {}, "up": None})
+            return _T("attr", _T("global", v.node.name), a)
+        for ty, names in _PY_METHODS.items():
+            if isinstance(v, ty) and a in names:
+                return _PyM(v, a)
+        raise _Undecided(f"attribute {a} of {type(v).__name__}")
+
+    def e_Subscript(self, e, env):
+        v = self.ev(e.value, env)
+        if isinstance(e.slice, ast.Slice):
+            parts = [None if p is None else self.ev(p, env) for p in (e.slice.lower, e.slice.upper, e.slice.step)]
+            if isinstance(v, _T) or any(_opaque(p) for p in parts):
+                return _T("slice", v, *parts)
+            try:
+                return v[slice(*parts)]
+            except Exception as x:
+                raise _Undecided(f"{short(e, 50)}: {type(x).__name__}")
+        k = self.ev(e.slice, env)
+        if isinstance(v, _T) or _opaque(k):
+            return _T("item", v, k)
+        try:
+            return v[k]
+        except Exception as x:
+            raise _Undecided(f"{short(e, 50)}: {type(x).__name__}")
+
+    def e_List(self, e, env):
+        out = []
+        for x in e.elts:
+            if isinstance(x, ast.Starred):
+                out += list(self.iterate(self.ev(x.value, env), x))
+            else:
+                out.append(self.ev(x, env))
+        return out
+
+    def e_Tuple(self, e, env):
+        return tuple(self.e_List(e, env))
+
+    def e_Set(self, e, env):
+        try:
+            return set(self.e_List(e, env))
+        except TypeError:
+            raise _Undecided("unhashable set element")
+
+    def e_Dict(self, e, env):
+        out = {}
+        for k, v in zip(e.keys, e.values):
+            if k is None:
+                d = self.ev(v, env)
+                if not isinstance(d, dict):
+                    raise _Undecided("** of an unknown value in a dict display")
+                out.update(d)
+            else:
+                kk = self.ev(k, env)
+                try:
+                    out[kk] = self.ev(v, env)
+                except TypeError:
+                    raise _Undecided("unhashable key")
+        return out
+
+    def e_JoinedStr(self, e, env):
+        parts = []
+        for v in e.values:
+            if isinstance(v, ast.Constant):
+                parts.append(str(v.value))
+            else:
+                x = self.ev(v.value, env)
+                if _opaque(x) or v.format_spec is not None or v.conversion != -1:
+                    return _T("fstring", *[self.ev(p.value, env) if isinstance(p, ast.FormattedValue) else p.value for p in e.values])
+                parts.append(str(x))
+        return "".join(parts)
+
+    def e_Lambda(self, e, env):
+        return _Fn(e, self.modstack[-1] if self.modstack else None, None, env)
+
+    def e_IfExp(self, e, env):
+        return self.ev(e.body if self.truth(self.ev(e.test, env)) else e.orelse, env)
+
+    def e_BoolOp(self, e, env):
+        v = None
+        for x in e.values:
+            v = self.ev(x, env)
+            t = self.truth(v)
+            if (isinstance(e.op, ast.And) and not t) or (isinstance(e.op, ast.Or) and t):
+                return v
+        return v
+
+    def e_UnaryOp(self, e, env):
+        v = self.ev(e.operand, env)
+        if isinstance(e.op, ast.Not):
+            return _T("not", v) if isinstance(v, _T) else not self.truth(v)
+        if _opaque(v):
+            return _T("unary", type(e.op).__name__, v)
+        return -v if isinstance(e.op, ast.USub) else +v if isinstance(e.op, ast.UAdd) else ~v
+
+    def e_BinOp(self, e, env):
+        a, b = self.ev(e.left, env), self.ev(e.right, env)
+        if isinstance(e.op, ast.Mod) and isinstance(a, str):
+            bb = b if isinstance(b, tuple) else (b,)
+            if any(_opaque(x) for x in bb):
+                return _T("format", a, *bb)
+        if _opaque(a) or _opaque(b):
+            return _T("bin", type(e.op).__name__, a, b)
+        try:
+            return _BIN[type(e.op)](a, b)
+        except Exception as x:
+            raise _Undecided(f"{short(e, 50)}: {type(x).__name__}")
+
+    def e_Compare(self, e, env):
+        left = self.ev(e.left, env)
+        res = True
+        for op, c in zip(e.ops, e.comparators):
+            right = self.ev(c, env)
+            r = self.compare(op, left, right)
+            if isinstance(r, _T):
+                if len(e.ops) > 1:
+                    raise _Undecided("chained comparison of unknown values")
+                return r
+            if not r:
+                return False
+            left = right
+        return res
+
+    def compare(self, op, a, b):
+        if isinstance(op, (ast.Is, ast.IsNot)):
+            if isinstance(a, _T) or isinstance(b, _T):
+                r = _T("cmp", "Is", a, b)
+                return r if isinstance(op, ast.Is) else _T("not", r)
+            r = a is b or (a is None and b is None) or (isinstance(a, bool) and isinstance(b, bool) and a == b)
+            return r if isinstance(op, ast.Is) else not r
+        if isinstance(op, (ast.In, ast.NotIn)):
+            if isinstance(b, _T) or (isinstance(a, _T) and not isinstance(b, (list, tuple))):
+                r = _T("cmp", "In", a, b)
+                return r if isinstance(op, ast.In) else _T("not", r)
+            try:
+                r = any(_same(a, x) for x in b) if isinstance(b, (list, tuple)) else a in b
+            except TypeError:
+                raise _Undecided("membership test")
+            return r if isinstance(op, ast.In) else not r
+        if isinstance(a, _T) or isinstance(b, _T):
+            if isinstance(op, (ast.Eq, ast.NotEq)) and isinstance(a, _T) and isinstance(b, _T) and a == b:
+                return isinstance(op, ast.Eq)
+            return _T("cmp", type(op).__name__, a, b)
+        if isinstance(a, (_O, _Fn, _Cls)) or isinstance(b, (_O, _Fn, _Cls)):
+            if isinstance(op, (ast.Eq, ast.NotEq)):
+                return (a is b) == isinstance(op, ast.Eq)
+            raise _Undecided("ordering of objects")
+        try:
+            return _CMPS[type(op)](a, b)
+        except Exception as x:
+            raise _Undecided(f"comparison: {type(x).__name__}")
+
+    def comp(self, e, env, emit):
+        def rec(i, en):
+            if i == len(e.generators):
+                emit(en)
+                return
+            g = e.generators[i]
+            for x in self.iterate(self.ev(g.iter, en), g.iter):
+                e2 = {"v": {}, "up": en}
+                self.assign(g.target, x, e2)
+                self.ctx.append(x)
+                try:
+                    if all(self.truth(self.ev(c, e2)) for c in g.ifs):
+                        rec(i + 1, e2)
+                finally:
+                    self.ctx.pop()
+
+        rec(0, {"v": {}, "up": env})
+
+    def e_ListComp(self, e, env):
+        out = []
+        self.comp(e, env, lambda en: out.append(self.ev(e.elt, en)))
+        return out
+
+    e_GeneratorExp = e_ListComp
+
+    def e_SetComp(self, e, env):
+        try:
+            return set(self.e_ListComp(e, env))
+        except TypeError:
+            raise _Undecided("unhashable set element")
+
+    def e_DictComp(self, e, env):
+        out = {}
+        self.comp(e, env, lambda en: out.__setitem__(self.ev(e.key, en), self.ev(e.value, en)))
+        return out
+
+    def iterate(self, v, node):
+        if isinstance(v, _T):
+            return None
+        if isinstance(v, dict):
+            return list(v.keys())
+        if isinstance(v, (list, tuple, set, range, str)):
+            return list(v)
+        raise _Undecided(f"iteration over {type(v).__name__}")
+
+    # -- calls -----------------------------------------------------------------------------------------------------------------------------------------------
+    def e_Call(self, e, env):
+        f = self.ev(e.func, env)
+        args, kwargs = [], {}
+        for a in e.args:
+            if isinstance(a, ast.Starred):
+                it = self.iterate(self.ev(a.value, env), a)
+                if it is None:
+                    raise _Undecided("* of an unknown value")
+                args += it
+            else:
+                args.append(self.ev(a, env))
+        for k in e.keywords:
+            if k.arg is None:
+                d = self.ev(k.value, env)
+                if not isinstance(d, dict):
+                    raise _Undecided("** of an unknown value")
+                kwargs.update(d)
+            else:
+                kwargs[k.arg] = self.ev(k.value, env)
+        return self.call(f, args, kwargs, e)
+
+    def call(self, f, args, kwargs, node):
+        if self.depth == 0:  # outermost call: whatever the evaluator cannot cope with is 'not recognised', never an error of the check and never a verdict
+            self.depth = 1
+            try:
+                return self.call(f, args, kwargs, node)
+            except (_Undecided, _Need):
+                raise
+            except _Raised as x:
+                raise _Undecided(f"the evaluated routine raises {x.v!r}")
+            except (_Ret, _Brk, _Cnt):
+                raise _Undecided("jump outside a routine")
+            except RecursionError:
+                raise _Undecided("recursion")
+            except Exception as x:  # noqa: BLE001
+                raise _Undecided(f"evaluator: {type(x).__name__}: {x}")
+            finally:
+                self.depth = 0
+        if isinstance(f, _Fn):
+            return self.call_fn(f, args, kwargs, node)
+        if isinstance(f, _Cls):
+            if f.node.name in self.opaque:
+                return _O(f.node.name)
+            o = _O(f.node.name, f.node, f.mod)
+            init = self.class_attr(f.node, f.mod, "__init__")
+            if init is not None:
+                self.call_fn(_Fn(init[0], init[1], o), args, kwargs, node)
+            return o
+        if isinstance(f, _PyM):
+            try:
+                r = getattr(f.recv, f.name)(*args, **kwargs)
+            except (KeyError, IndexError, ValueError, TypeError, AttributeError) as x:
+                raise _Undecided(f"{f.name}: {type(x).__name__}")
+            return list(r) if f.name in ("items", "keys", "values") else r
+        if isinstance(f, _O):
+            r = self.class_attr(f.cls, f.mod, "__call__") if f.cls is not None else None
+            if r is not None:
+                return self.call_fn(_Fn(r[0], r[1], f), args, kwargs, node)
+            return self.effect(f.name, args, kwargs, node)
+        if isinstance(f, _T) and f.op == "builtin":
+            return self.builtin(f.args[0], args, kwargs, node)
+        if isinstance(f, _T):
+            r = self.effect(f.path() or repr(f), args, kwargs, node, f)
+            if self.model is not None:
+                m = self.model(f.path() or "", args, kwargs)
+                if m is not NotImplemented:
+                    return m
+            return r
+        raise _Undecided(f"call of a {type(f).__name__}")
+
+    def effect(self, path, args, kwargs, node, f=None):
+        ef = _Eff(path, list(args), dict(kwargs), tuple(self.ctx), node, self.watch() if self.watch else None)
+        ef.reads = [o for fr in self.frames[1:] for o in fr]
+        self.effects.append(ef)
+        return _T("call", f if f is not None else _T("global", path), tuple(args) + tuple(sorted(kwargs.items(), key=lambda kv: kv[0])))
+
+    def builtin(self, name, args, kwargs, node):
+        if name == "isinstance" and len(args) == 2:
+            o, c = args
+            if isinstance(c, _T) and c.op == "builtin" and not _opaque(o):
+                return isinstance(o, _BUILTINS[c.args[0]]) if isinstance(_BUILTINS.get(c.args[0]), type) else _T("call", _T("builtin", name), tuple(args))
+            if isinstance(o, _O) and isinstance(c, _Cls) and o.cls is not None:
+                return o.cls is c.node or c.node.name in [last_attr(b) for b in o.cls.bases]
+            return _T("call", _T("builtin", name), tuple(args))
+        if name in ("getattr", "hasattr") and len(args) >= 2 and isinstance(args[0], _O) and isinstance(args[1], str):
+            o, a = args[0], args[1]
+            has = a in o.f or a in o.on_read or (o.cls is not None and self.class_attr(o.cls, o.mod, a) is not None)
+            if name == "hasattr":
+                return has
+            return self.getattr(o, a) if has or len(args) < 3 else args[2]
+        if name == "enumerate" and args and not isinstance(args[0], _T):
+            it = self.iterate(args[0], node)
+            st = kwargs.get("start", args[1] if len(args) > 1 else 0)
+            if not _opaque(st):
+                return [(st + i, x) for i, x in enumerate(it)]
+        if name == "zip" and all(not isinstance(a, _T) for a in args):
+            return [tuple(t) for t in zip(*[self.iterate(a, node) for a in args])]
+        if name in ("map", "filter") and len(args) == 2 and not isinstance(args[1], _T):
+            vals = [(x, self.call(args[0], [x], {}, node)) for x in self.iterate(args[1], node)]
+            return [r for _, r in vals] if name == "map" else [x for x, r in vals if self.truth(r)]
+        if name == "str" and len(args) == 1 and isinstance(args[0], (int, float, str, bool, type(None))):
+            return str(args[0])
+        if name == "print":
+            return None
+        fn = _BUILTINS.get(name)
+        if fn is not None and not kwargs and not any(isinstance(a, (_T, _Fn, _Cls, _PyM)) for a in args) and not (name in ("sorted", "min", "max", "sum", "int", "float", "abs", "round")
+                                                                                                           and any(_opaque(x) for a in args for x in (a if isinstance(a, (list, tuple, set)) else [a]))):
+            try:
+                r = fn(*args)
+            except Exception as x:
+                raise _Undecided(f"{name}(): {type(x).__name__}")
+            return list(r) if isinstance(r, range) else r
+        return _T("call", _T("builtin", name), tuple(args))
+
+    def call_fn(self, f, args, kwargs, node):
+        fn = f.node
+        self.depth += 1
+        if self.depth > 25:
+            raise _Undecided("call depth")
+        try:
+            a = fn.args
+            names = [x.arg for x in a.posonlyargs + a.args]
+            vals = {}
+            args = ([f.bound] if f.bound is not None else []) + list(args)
+            if len(args) > len(names) and a.vararg is None:
+                raise _Undecided(f"too many arguments for {getattr(fn, 'name', 'lambda')}")
+            for n_, v in zip(names, args):
+                vals[n_] = v
+            if a.vararg is not None:
+                vals[a.vararg.arg] = tuple(args[len(names):])
+            extra = {}
+            for k, v in kwargs.items():
+                if k in names or k in [x.arg for x in a.kwonlyargs]:
+                    if k in vals:
+                        raise _Undecided(f"parameter {k} bound twice")
+                    vals[k] = v
+                elif a.kwarg is not None:
+                    extra[k] = v
+                else:
+                    raise _Undecided(f"unexpected keyword {k} for {getattr(fn, 'name', 'lambda')}")
+            if a.kwarg is not None:
+                vals[a.kwarg.arg] = extra
+            denv = {"v": {}, "up": None}
+            for n_, d in zip(reversed(names), reversed(a.defaults)):
+                if n_ not in vals:
+                    vals[n_] = self.ev(d, denv)
+            for x, d in zip(a.kwonlyargs, a.kw_defaults):
+                if x.arg not in vals and d is not None:
+                    vals[x.arg] = self.ev(d, denv)
+            missing = [n_ for n_ in names + [x.arg for x in a.kwonlyargs] if n_ not in vals]
+            if missing:
+                raise _Undecided(f"parameter(s) {missing} of {getattr(fn, 'name', 'lambda')} not bound")
+            env = {"v": vals, "up": f.env}
+            self.modstack.append(f.mod if f.mod is not None else (self.modstack[-1] if self.modstack else self.mods[0]))
+            try:
+                if isinstance(fn, ast.Lambda):
+                    return self.ev(fn.body, env)
+                if any(isinstance(x, (ast.Yield, ast.YieldFrom)) for x in walk_body(fn)):
+                    return _T("call", _T("global", fn.name), tuple(args))
+                try:
+                    self.run(fn.body, env)
+                except _Ret as r:
+                    return r.v
+                return None
+            finally:
+                self.modstack.pop()
+        finally:
+            self.depth -= 1
+
+    # -- statements --------------------------------------------------------------------------------------------------------------------------------------------
+    def run(self, stmts, env):
+        for s in stmts:
+            self.steps += 1
+            m = getattr(self, "s_" + type(s).__name__, None)
+            if m is None:
+                raise _Undecided(f"statement {type(s).__name__} at line {getattr(s, 'lineno', '?')}")
+            self.frames.append([])
+            try:
+                m(s, env)
+            finally:
+                self.frames.pop()
+
+    def s_Expr(self, s, env):
+        self.ev(s.value, env)
+
+    def s_Pass(self, s, env):
+        pass
+
+    s_Assert = s_Import = s_ImportFrom = s_Global = s_Nonlocal = s_Pass
+
+    def s_Return(self, s, env):
+        raise _Ret(self.ev(s.value, env) if s.value is not None else None)
+
+    def s_Break(self, s, env):
+        raise _Brk()
+
+    def s_Continue(self, s, env):
+        raise _Cnt()
+
+    def s_Raise(self, s, env):
+        raise _Raised(self.ev(s.exc, env) if s.exc is not None else None)
+
+    def s_FunctionDef(self, s, env):
+        env["v"][s.name] = _Fn(s, self.modstack[-1] if self.modstack else None, None, env)
+
+    s_AsyncFunctionDef = s_FunctionDef
+
+    def s_Delete(self, s, env):
+        for t in s.targets:
+            if isinstance(t, ast.Name):
+                env["v"].pop(t.id, None)
+            elif isinstance(t, ast.Subscript):
+                c, k = self.ev(t.value, env), self.ev(t.slice, env)
+                if isinstance(c, (dict, list)) and not _opaque(k):
+                    try:
+                        del c[k]
+                    except (KeyError, IndexError, TypeError):
+                        raise _Undecided("del of a missing item")
+            elif isinstance(t, ast.Attribute):
+                o = self.ev(t.value, env)
+                if isinstance(o, _O):
+                    o.f.pop(t.attr, None)
+
+    def assign(self, t, v, env):
+        if isinstance(t, ast.Name):
+            env["v"][t.id] = v
+        elif isinstance(t, (ast.Tuple, ast.List)):
+            if isinstance(v, _T):
+                for i, x in enumerate(t.elts):
+                    self.assign(x.value if isinstance(x, ast.Starred) else x, _T("item", v, i), env)
+                return
+            vals = self.iterate(v, t)
+            if any(isinstance(x, ast.Starred) for x in t.elts) or len(vals) != len(t.elts):
+                raise _Undecided("unpacking")
+            for x, y in zip(t.elts, vals):
+                self.assign(x, y, env)
+        elif isinstance(t, ast.Attribute):
+            o = self.ev(t.value, env)
+            if isinstance(o, _O):
+                o.f[t.attr] = v
+            elif not isinstance(o, _T):
+                raise _Undecided(f"attribute store on {type(o).__name__}")
+        elif isinstance(t, ast.Subscript):
+            c = self.ev(t.value, env)
+            if isinstance(c, _T):
+                return
+            k = self.ev(t.slice, env) if not isinstance(t.slice, ast.Slice) else None
+            if k is None or not isinstance(c, (list, dict)):
+                raise _Undecided("subscript store")
+            try:
+                c[k] = v
+            except Exception as x:
+                raise _Undecided(f"subscript store: {type(x).__name__}")
+        else:
+            raise _Undecided(f"assignment target {type(t).__name__}")
+
+    def s_Assign(self, s, env):
+        v = self.ev(s.value, env)
+        for t in s.targets:
+            self.assign(t, v, env)
+
+    def s_AnnAssign(self, s, env):
+        if s.value is not None:
+            self.assign(s.target, self.ev(s.value, env), env)
+
+    def s_AugAssign(self, s, env):
+        load = _copy(s.target)
+        load.ctx = ast.Load()
+        cur, v = self.ev(load, env), self.ev(s.value, env)
+        if isinstance(cur, list) and isinstance(s.op, ast.Add) and not isinstance(v, _T):
+            cur.extend(self.iterate(v, s))  # in place, as Python does
+            return
+        if _opaque(cur) or _opaque(v):
+            new = _T("bin", type(s.op).__name__, cur, v)
+        else:
+            try:
+                new = _BIN[type(s.op)](cur, v)
+            except Exception as x:
+                raise _Undecided(f"{short(s, 50)}: {type(x).__name__}")
+        self.assign(s.target, new, env)
+
+    def s_If(self, s, env):
+        self.run(s.body if self.truth(self.ev(s.test, env)) else s.orelse, env)
+
+    def s_While(self, s, env):
+        n = 0
+        while self.truth(self.ev(s.test, env)):
+            n += 1
+            if n > 200000:
+                raise _Undecided("loop bound")
+            try:
+                self.run(s.body, env)
+            except _Brk:
+                return
+            except _Cnt:
+                continue
+        self.run(s.orelse, env)
+
+    def s_For(self, s, env):
+        it = self.iterate(self.ev(s.iter, env), s.iter)
+        if it is None:
+            return  # a loop over a collection the evaluator does not model (e.g. what an unmodelled call returned) is skipped
+        for x in it:
+            self.assign(s.target, x, env)
+            self.ctx.append(x)
+            try:
+                self.run(s.body, env)
+            except _Brk:
+                return
+            except _Cnt:
+                continue
+            finally:
+                self.ctx.pop()
+        self.run(s.orelse, env)
+
+    s_AsyncFor = s_For
+
+    def s_With(self, s, env):
+        for it in s.items:
+            v = self.ev(it.context_expr, env)
+            if it.optional_vars is not None:
+                self.assign(it.optional_vars, v if isinstance(v, _T) else _T("entered", v), env)
+        self.run(s.body, env)
+
+    s_AsyncWith = s_With
+
+    def s_Try(self, s, env):
+        try:
+            try:
+                self.run(s.body, env)
+            except _Raised as r:
+                for h in s.handlers:
+                    names = [last_attr(t) for t in (h.type.elts if isinstance(h.type, ast.Tuple) else [h.type])] if h.type is not None else [None]
+                    rn = r.v.node.name if isinstance(r.v, _Cls) else r.v.name if isinstance(r.v, _O) else (r.v.path() or "").rsplit(".", 1)[-1] if isinstance(r.v, _T) else None
+                    if rn is None and isinstance(r.v, _T) and r.v.op == "call" and isinstance(r.v.args[0], _T):
+                        rn = (r.v.args[0].path() or "").rsplit(".", 1)[-1]
+                    if any(n_ is None or n_ in ("Exception", "BaseException") or n_ == rn for n_ in names):
+                        if h.name:
+                            env["v"][h.name] = r.v
+                        self.run(h.body, env)
+                        break
+                else:
+                    raise
+            else:
+                self.run(s.orelse, env)
+        finally:
+            if s.finalbody:
+                self.run(s.finalbody, env)
+
+
+def _explore(make, limit=48):
+    """runs make(interp) for every sequence of decisions on unknown branch conditions; returns [(interp, result)]. make must build its inputs afresh on every call."""
+    out, todo = [], [[]]
+    while todo:
+        o = todo.pop()
+        it = make(o)
+        try:
+            res = it[1]()
+        except _Need:
+            todo += [o + [True], o + [False]]
+            if len(todo) + len(out) > limit:
+                raise _Undecided("too many undecided branches")
+            continue
+        out.append((it[0], res))
+    return out
 
 
 class _SamplerFlow:
@@ -270,7 +1324,7 @@ def drain_before_drive_rule(chk, rid, drv):
     wk = drv.methods(W).get("receiveMsg_WakeupMessage")
     if wk is None:
         raise AnchorMissing("Worker.receiveMsg_WakeupMessage")
-    flow = _SamplerFlow(drv, W)
+    flow = _flow_of(drv)
     if flow.flag is None:
         raise AnchorMissing("one-shot start-of-step flag consumed by a handler of Worker (raised by another handler)")
     if not flow.writes:
@@ -291,16 +1345,22 @@ def drain_before_drive_rule(chk, rid, drv):
 
 def flush_no_fallible_gap(chk, rid, met):
     """EsMetricsStore.flush: between the acknowledged bulk send and emptying the buffer no other store-client call can run (shared with C17): if such a call raises,
-    the already-indexed documents stay buffered and the next flush / close sends them a second time."""
-    fl = met.methods(met.cls("EsMetricsStore")).get("flush")
-    if fl is None:
-        raise AnchorMissing("EsMetricsStore.flush")
+    the already-indexed documents stay buffered and the next flush / close sends them a second time. Roles by evaluation: the buffer is the attribute the add hook appends
+    to, the send is the call of flush that receives the buffer, the store client is the receiver of that call."""
+    try:
+        es = _EsFlush(met)
+        sends = es.send_nodes()
+    except (_Undecided, _Need) as x:
+        chk.unknown(rid, f"EsMetricsStore.flush not evaluated: {x}", met.cls("EsMetricsStore"))
+        return
+    fl = es.fl
     g = cfg_of(fl)
-    bi = [n for n in walk_body(fl) if isinstance(n, ast.Call) and last_attr(n.func) == "bulk_index"]
-    rs = [n for n in walk_body(fl) if isinstance(n, ast.Assign) and any(is_self_attr(t, "_docs") for t in n.targets)]
-    other = [n for n in walk_body(fl) if isinstance(n, ast.Call) and isinstance(n.func, ast.Attribute) and is_self_attr(n.func.value, "_client") and n not in bi]
-    if not bi or not rs:
+    bi = [n for n in dict.fromkeys(sends) if n is not None and source.enclosing_func(n) is fl]
+    rs = [n for n in walk_body(fl) if isinstance(n, ast.Assign) and any(is_self_attr(t, es.buf) for t in n.targets)]
+    if not bi or not rs or not isinstance(bi[0].func, ast.Attribute):
         raise AnchorMissing("bulk send / buffer reset in EsMetricsStore.flush")
+    client = u(bi[0].func.value)
+    other = [n for n in walk_body(fl) if isinstance(n, ast.Call) and isinstance(n.func, ast.Attribute) and u(n.func.value) == client and n not in bi]
     bn, rn_ = g.node_of(bi[0]), g.node_of(rs[0])
     between = [c for c in other if g.path_exists(bn, g.node_of(c), avoid=[rn_], edge_ok=g.normal_edge) and g.path_exists(g.node_of(c), rn_, edge_ok=g.normal_edge)]
     chk.ob(rid, "no other store-client call between the acknowledged bulk send and emptying the buffer", not between, between[0] if between else rs[0],
@@ -308,207 +1368,1247 @@ def flush_no_fallible_gap(chk, rid, met):
            key="esrally/metrics.py:EsMetricsStore.flush:fallible-gap")
 
 
+# =====================================================================================================================================================
+# roles (derived from data flow, never from the names of locals / attributes / parameters)
+
+
+def _modules_mentioning(repo, word):
+    """the modules of the package whose text contains `word` (only those are parsed: a whole-package question about one identifier does not need the other fifty files)"""
+    return [repo.module(p) for p in repo.package_files() if word in repo.text(p)]
+
+
+def _calls_named(repo, name):
+    """all call sites in the package whose callee's last name component is `name` (who-may-call by method name)"""
+    return [n for m in _modules_mentioning(repo, name) for n in ast.walk(m.tree) if isinstance(n, ast.Call) and last_attr(n.func) == name]
+
+
+def _flow_of(drv):
+    f = getattr(drv, "_c07_flow", None)
+    if f is None:
+        f = drv._c07_flow = _SamplerFlow(drv, drv.cls("Worker"))
+    return f
+
+
+def _is_property(f):
+    return any((dotted(d) or "") == "property" for d in f.decorator_list)
+
+
+def _self_attrs(f):
+    return {x.attr for x in walk_body(f) if is_self_attr(x)}
+
+
+def _holders(drv, cls, attr):
+    """names that hold the object kept in <cls>.self.<attr>, followed through constructor / method arguments and `self.x = <param>` stores inside the module:
+    ({(class name, attribute)}, {(id(function), parameter)}, {id(function): function})."""
+    h_attr, h_par, fns = {(cls.name, attr)}, set(), {}
+    classes = {c.name: c for c in drv.classes()}
+    changed = True
+    while changed:
+        changed = False
+        for c in drv.classes():
+            for f in drv.methods(c).values():
+                defs = local_defs(f)
+
+                def holds(e):
+                    if isinstance(e, ast.Name) and e.id in defs:
+                        e = defs[e.id]
+                    return (is_self_attr(e) and (c.name, e.attr) in h_attr) or (isinstance(e, ast.Name) and (id(f), e.id) in h_par)
+
+                for n in walk_body(f):
+                    if isinstance(n, ast.Call):
+                        callee = None
+                        if last_attr(n.func) in classes:
+                            callee = drv.methods(classes[last_attr(n.func)]).get("__init__")
+                        elif is_self_attr(n.func) and n.func.attr in drv.methods(c):
+                            callee = drv.methods(c)[n.func.attr]
+                        if callee is not None:
+                            for p, a in source.bind_args(n, callee).items():
+                                if holds(a) and (id(callee), p) not in h_par:
+                                    h_par.add((id(callee), p))
+                                    fns[id(callee)] = callee
+                                    changed = True
+                    elif isinstance(n, ast.Assign) and len(n.targets) == 1 and is_self_attr(n.targets[0]) and holds(n.value) and (c.name, n.targets[0].attr) not in h_attr:
+                        h_attr.add((c.name, n.targets[0].attr))
+                        changed = True
+    return h_attr, h_par, fns
+
+
+def _rep(n, prefix="s"):
+    return [_O(f"{prefix}{i}") for i in range(n)]
+
+
+def _unknown_reads(v, objs, depth=0):
+    """attribute reads of representative objects that the rule has no value for, inside an evaluated value"""
+    out = []
+    if depth > 8:
+        return out
+    if isinstance(v, _T):
+        if v.op == "attr" and isinstance(v.args[0], _O) and any(v.args[0] is o for o in objs):
+            out.append(f"{v.args[0].name}.{v.args[1]}")
+        for a in v.args:
+            out += _unknown_reads(a, objs, depth + 1)
+    elif isinstance(v, (list, tuple)):
+        for a in v:
+            out += _unknown_reads(a, objs, depth + 1)
+    elif isinstance(v, dict):
+        for a in v.values():
+            out += _unknown_reads(a, objs, depth + 1)
+    return out
+
+
+def _mentions(v, target, depth=0):
+    """the evaluated value contains `target` (an object / list, by identity or - for lists - by identical elements)"""
+    if v is target or (isinstance(target, list) and isinstance(v, list) and target and len(v) == len(target) and all(a is b for a, b in zip(v, target))):
+        return True
+    if depth > 8:
+        return False
+    if isinstance(v, _T):
+        return any(_mentions(a, target, depth + 1) for a in v.args)
+    if isinstance(v, (list, tuple)):
+        return any(_mentions(a, target, depth + 1) for a in v)
+    if isinstance(v, dict):
+        return any(_mentions(a, target, depth + 1) for a in v.values())
+    if isinstance(v, _O):
+        return any(_mentions(a, target, depth + 1) for a in v.f.values())
+    return False
+
+
+def _self_attr_terms(v, selfo, depth=0):
+    """names of the attributes of `selfo` that were read WITHOUT a representative value inside v (the roles an evaluation with an empty object reveals)"""
+    out = []
+    if depth > 8:
+        return out
+    if isinstance(v, _T):
+        if v.op == "attr" and v.args[0] is selfo:
+            out.append(v.args[1])
+        for a in v.args:
+            out += _self_attr_terms(a, selfo, depth + 1)
+    elif isinstance(v, (list, tuple)):
+        for a in v:
+            out += _self_attr_terms(a, selfo, depth + 1)
+    elif isinstance(v, dict):
+        for a in v.values():
+            out += _self_attr_terms(a, selfo, depth + 1)
+    return out
+
+
+# ---- O7.1 --------------------------------------------------------------------------------------------------------------------------------------------
+def _sampler_roles(drv):
+    """(Sampler class, queue attribute, drain function, add function or None, other methods touching the queue)"""
+    S = drv.cls("Sampler")
+    sm = drv.methods(S)
+    qs = sorted({n.targets[0].attr for f in sm.values() for n in walk_body(f) if isinstance(n, ast.Assign) and len(n.targets) == 1 and is_self_attr(n.targets[0])
+                 and isinstance(n.value, ast.Call) and (last_attr(n.value.func) or "").endswith("Queue")})
+    if len(qs) != 1:
+        raise AnchorMissing(f"the queue attribute of Sampler (assigned a ...Queue(...)): found {qs}")
+    q = qs[0]
+    X = _Expand(drv, S)
+    ex = {n: X.function(f) for n, f in sm.items() if n != "__init__"}
+    touch = {n: f for n, f in ex.items() if q in _self_attrs(f)}
+
+    def qcalls(f, names):
+        return [c for c in walk_body(f) if isinstance(c, ast.Call) and isinstance(c.func, ast.Attribute) and c.func.attr in names and is_self_attr(c.func.value, q)]
+
+    adds = [n for n, f in touch.items() if qcalls(f, ("put_nowait", "put")) and n not in X.inlined]
+    flow = _flow_of(drv)
+    drains = [n for n in touch if n == flow.prop] or [n for n, f in touch.items() if qcalls(f, ("get_nowait", "get")) and n not in X.inlined]
+    if len(drains) != 1:
+        raise AnchorMissing(f"the draining routine of Sampler (reads the queue attribute `{q}`; read by the worker): found {drains}")
+    rest = [n for n in touch if n not in drains and n not in X.inlined]
+    if len(adds) != 1:
+        if len(rest) != 1:
+            raise AnchorMissing(f"the routine of Sampler that enqueues a sample into `{q}`: found {adds or rest}")
+        adds = rest
+    return S, q, ex[drains[0]], ex[adds[0]], qcalls
+
+
+def _o71(chk, drv):
+    S, q, smp, add, qcalls = _sampler_roles(drv)
+    gets = qcalls(smp, ("get_nowait", "get"))
+    defs = local_defs(smp)
+    if not gets:
+        chk.ob("O7.1", "drain: every element leaves the queue through its own get, in a loop that ends on Empty; the accumulated list is returned", False, smp,
+               f"`{smp.name}` reads the queue `{q}` but never dequeues through get_nowait()/get(): elements added concurrently between its steps are lost or returned twice")
+    elif len(gets) > 1:
+        chk.unknown("O7.1", f"drain `{smp.name}` dequeues at {len(gets)} places", smp)
+    else:
+        g0 = gets[0]
+        loop = source.enclosing(g0, (ast.While, ast.For))
+        p = source.parent(g0)
+        acc = None
+        if isinstance(p, ast.Call) and last_attr(p.func) == "append" and isinstance(p.func.value, ast.Name):
+            acc = p.func.value.id
+        elif isinstance(p, ast.Assign) and len(p.targets) == 1 and isinstance(p.targets[0], ast.Name) and loop is not None:
+            v = p.targets[0].id
+            apps = [c for c in ast.walk(loop) if isinstance(c, ast.Call) and last_attr(c.func) == "append" and isinstance(c.func.value, ast.Name) and len(c.args) == 1
+                    and isinstance(c.args[0], ast.Name) and c.args[0].id == v]
+            if len(apps) == 1 and not guards(apps[0], stop=loop, path_sensitive=True):
+                acc = apps[0].func.value.id
+        rets = [n for n in walk_body(smp) if isinstance(n, ast.Return)]
+        if acc is None or not isinstance(loop, ast.While) or not rets:
+            chk.unknown("O7.1", f"drain `{smp.name}`: accumulate-in-a-while-loop shape not recognised (accumulator={acc}, loop={type(loop).__name__})", smp)
+        else:
+            bad = []
+            # the loop (and any condition around the get inside it) holds for every size of the accumulated list: decided on values
+            for t, pol in [(loop.test, True)] + guards(g0, stop=loop, path_sensitive=True):
+                for size in (0, 1, 999, 1000, 5000, 1 << 17):
+                    try:
+                        it = _Interp([drv])
+                        v = it.truth(it.ev(t, {"v": {acc: [0] * size, "self": _O("self")}, "up": None}))
+                    except (_Undecided, _Need) as x:
+                        chk.unknown("O7.1", f"drain `{smp.name}`: condition `{short(t, 50)}` not decided ({x})", t)
+                        break
+                    if v != pol:
+                        bad.append(f"`{short(t, 50)}` stops the drain with {size} element(s) read while the queue may hold more")
+                        break
+            tr = source.enclosing(g0, ast.Try)
+            hs = [last_attr(t_) for h in (tr.handlers if tr is not None else []) for t_ in ((h.type.elts if isinstance(h.type, ast.Tuple) else [h.type]) if h.type is not None else [None])]
+            if tr is None or not hs:
+                bad.append("the dequeue is not inside a try that ends the loop on Empty")
+            elif any(h != "Empty" for h in hs):
+                bad.append(f"handler(s) {hs}: anything but queue.Empty is swallowed together with the elements read so far")
+            for x in ast.walk(loop):
+                if isinstance(x, ast.Continue) or (isinstance(x, ast.Break) and not (isinstance(source.enclosing(x, ast.ExceptHandler), ast.ExceptHandler) and last_attr(source.enclosing(x, ast.ExceptHandler).type) == "Empty")):
+                    bad.append(f"`{type(x).__name__.lower()}` at line {x.lineno} leaves / skips the loop other than on Empty")
+            for r in rets:
+                rv = r.value
+                while isinstance(rv, ast.Name) and rv.id != acc and rv.id in defs:
+                    rv = defs[rv.id]
+                if not (isinstance(rv, ast.Name) and rv.id == acc):
+                    bad.append(f"`{short(r, 40)}` does not return the accumulated list `{acc}`")
+            chk.ob("O7.1", "drain: every element leaves the queue through its own get, in a loop that ends on Empty; the accumulated list is returned", not bad, smp, "; ".join(bad) or f"accumulator={acc}")
+    puts = qcalls(add, ("put_nowait", "put"))
+    if len(puts) != 1:
+        chk.ob("O7.1", "add: put_nowait(Sample(...)) unconditionally, dropping only on queue.Full", False, add,
+               f"`{add.name}` touches the queue `{q}` with {len(puts)} put call(s)") if not puts else chk.unknown("O7.1", f"`{add.name}` enqueues at {len(puts)} places", add)
+    else:
+        adefs = local_defs(add)
+        tr = source.enclosing(puts[0], ast.Try)
+        a0 = puts[0].args[0] if puts[0].args else None
+        a0 = adefs.get(a0.id, a0) if isinstance(a0, ast.Name) else a0
+        hs = [last_attr(t_) for h in (tr.handlers if tr is not None else []) for t_ in ((h.type.elts if isinstance(h.type, ast.Tuple) else [h.type]) if h.type is not None else [None])]
+        bad = []
+        if any(h != "Full" for h in hs):
+            bad.append(f"handler(s) {hs} around the put: a sample is dropped on something else than queue.Full")
+        gs = guards(puts[0], path_sensitive=True)
+        if gs:
+            bad.append(f"the put is conditional on `{short(gs[0][0], 40)}`")
+        if not (isinstance(a0, ast.Call) and last_attr(a0.func) == "Sample"):
+            bad.append(f"what is enqueued is `{short(a0, 40) if a0 is not None else None}`, not a Sample built from the arguments")
+        chk.ob("O7.1", "add: put_nowait(Sample(...)) unconditionally, dropping only on queue.Full", not bad, add, "; ".join(bad))
+    if _is_property(smp):
+        chk.ob("O7.1", "drain is exposed as a property (every read drains)", True, smp, "")
+    else:
+        chk.unknown("O7.1", f"the draining routine `{smp.name}` is not a property: its readers are not recognised", smp)
+    return S, smp, add
+
+
+# ---- O7.2 / O7.3 / O7.4 ----------------------------------------------------------------------------------------------------------------------------------
+class _Ship:
+    """The worker's ship routine evaluated on representative values: the sampler is an object whose draining property hands out what is pending and empties it (every read
+    counts); `self.send` is an effect. Result per scenario: number of reads, the messages sent."""
+
+    def __init__(self, drv, flow, fn, pending):
+        self.reads = 0
+        self.pending = list(pending or [])
+
+        def drain():
+            self.reads += 1
+            out, self.pending = self.pending, []
+            return out
+
+        self.sampler = _O("sampler", _on_read={flow.prop: drain}) if pending is not None else None
+        self.it = _Interp([drv])
+        self.selfo = _O("self", drv.cls("Worker"), drv, **{flow.sampler: self.sampler, "worker_id": 3})
+        self.ret = self.it.call(_Fn(fn, drv, self.selfo), [], {}, fn)
+        self.msgs = [(e, a) for e in self.it.effects for a in e.args + list(e.kwargs.values()) if isinstance(a, _O) and a.cls is not None and a is not self.selfo]
+
+
+def _o72(chk, repo, drv):
+    flow = _flow_of(drv)
+    W = drv.cls("Worker")
+    wm = drv.methods(W)
+    X = _Expand(drv, W)
+    readers = sorted(flow.drainers())
+    ships = [n for n in readers if any(isinstance(c, ast.Call) and last_attr(c.func) == "UpdateSamples" for c in ast.walk(X.function(wm[n])))]
+    if not ships:
+        raise AnchorMissing(f"the routine of Worker that reads the draining property `{flow.sampler}.{flow.prop}` and builds the UpdateSamples message")
+    payload_field = None
+    inner = set()
+    for n in ships:
+        Xn = _Expand(drv, W)
+        Xn.function(wm[n])
+        inner |= Xn.inlined & set(ships)
+    for n in [x for x in ships if x not in inner]:
+        fn = wm[n]
+        try:
+            full, empty, none = (_Ship(drv, flow, fn, p) for p in (_rep(3), [], None))
+            sizes = [(k, _Ship(drv, flow, fn, _rep(k))) for k in (1, 2, 2000)]
+        except (_Undecided, _Need) as x:
+            chk.unknown("O7.2", f"ship routine `{n}` not evaluated: {x}", fn)
+            continue
+        ok = full.reads == 1 and empty.reads <= 1 and none.reads == 0
+        chk.ob("O7.2", "the draining property is read exactly once per shipment", ok, fn, f"{full.reads} read(s) with samples pending, {empty.reads} with none")
+        sent = [(e, m, [k for k, v in m.f.items() if isinstance(v, list) and len(v) == 3 and all(isinstance(x, _O) and x.name.startswith("s") for x in v)]) for e, m in full.msgs]
+        carrying = [(e, m, ks) for e, m, ks in sent if ks]
+        ok = len(carrying) == 1 and full.reads >= 1
+        detail = f"{len(full.msgs)} message(s) sent, {len(carrying)} carrying the 3 drained samples"
+        for k, sh in sizes:
+            got = [v for e, m in sh.msgs for v in m.f.values() if isinstance(v, list) and len(v) == k and all(isinstance(x, _O) for x in v)]
+            if len(got) != 1:
+                ok = False
+                detail += f"; with {k} sample(s) pending {len(got)} message(s) carry them"
+        if len(full.msgs) >= 1 and not carrying:
+            detail += "; payload=" + ", ".join(f"{k}={v!r}"[:40] for k, v in full.msgs[0][1].f.items())
+        chk.ob("O7.2", "what was drained is the payload of exactly one UpdateSamples message (withheld only when nothing was drained)", ok, carrying[0][0].node if carrying else fn, detail)
+        if carrying:
+            payload_field = (carrying[0][1].cls.name, carrying[0][2][0])
+    # other readers of the draining property: in the worker, and anywhere a holder of the worker's sampler is in reach
+    h_attr, h_par, fns = _holders(drv, W, flow.sampler)
+    names = {a for _, a in h_attr} | {p for _, p in h_par}
+    for m in _modules_mentioning(repo, flow.prop):
+        for n in ast.walk(m.tree):
+            if isinstance(n, ast.Attribute) and n.attr == flow.prop and isinstance(n.ctx, ast.Load) and isinstance(n.value, (ast.Name, ast.Attribute)):
+                f = source.enclosing_func(n)
+                recv = n.value
+                if isinstance(recv, ast.Name) and f is not None and recv.id not in names:
+                    recv = local_defs(f).get(recv.id, recv)  # a local alias of a holder
+                if last_attr(recv) not in names or not isinstance(recv, (ast.Name, ast.Attribute)):
+                    continue
+                if not (source.enclosing_class(n) is W and f is not None and f.name in ships):
+                    chk.ob("O7.2", "no other reader of the draining property", False, n, f"{source.qualname(n)} drains the sampler: those samples are never shipped")
+    return [x for x in ships if x not in inner], payload_field, (h_attr, h_par, fns)
+
+
+def _driver_roles(drv):
+    """(post-processor attribute of Driver, the Driver methods that call it)"""
+    D = drv.cls("Driver")
+    dm = drv.methods(D)
+    spp = sorted({n.targets[0].attr for f in dm.values() for n in walk_body(f) if isinstance(n, ast.Assign) and len(n.targets) == 1 and is_self_attr(n.targets[0])
+                  and isinstance(n.value, ast.Call) and last_attr(n.value.func) == "SamplePostprocessor"})
+    if len(spp) != 1:
+        raise AnchorMissing(f"the attribute of Driver that holds the SamplePostprocessor: found {spp}")
+    pps = [f for f in dm.values() if any(isinstance(c, ast.Call) and is_self_attr(c.func, spp[0]) for c in walk_body(f))]
+    if not pps:
+        raise AnchorMissing(f"a Driver method that calls the post-processor `self.{spp[0]}(...)`")
+    return D, spp[0], pps
+
+
+def _run_pp(drv, D, spp, pp, raw_attr, content):
+    """evaluate the post-processing routine with self.<raw_attr> = content; returns (interp, self object, [(argument, raw attribute at call time)])"""
+    it = _Interp([drv])
+    proc = _O("post_processor")
+    fields = {spp: proc}
+    if raw_attr is not None:
+        fields[raw_attr] = content
+    selfo = _O("self", D, drv, **fields)
+    it.watch = lambda: (selfo.f.get(raw_attr), list(selfo.f.get(raw_attr)) if isinstance(selfo.f.get(raw_attr), list) else None)
+    it.call(_Fn(pp, drv, selfo), [], {}, pp)
+    return it, selfo, [e for e in it.effects if e.path == "post_processor"]
+
+
+def _o74(chk, drv):
+    D, spp, pps = _driver_roles(drv)
+    raw_attr = None
+    for pp in pps:
+        # which attribute reaches the post-processor: evaluated on an object without values, the argument names it
+        try:
+            it, selfo, calls = _run_pp(drv, D, spp, pp, None, None)
+        except (_Undecided, _Need) as x:
+            chk.unknown("O7.4", f"post-processing routine `{pp.name}` not evaluated: {x}", pp)
+            continue
+        attrs = sorted({a for e in calls for a in _self_attr_terms(e.args, selfo)} | {a for e in calls for x in e.args for a, v in selfo.f.items() if a != spp and v is x and isinstance(x, list)})
+        if len(calls) != 1 or len(attrs) != 1:
+            chk.unknown("O7.4", f"`{pp.name}`: {len(calls)} call(s) of the post-processor fed from attribute(s) {attrs}", pp)
+            continue
+        raw_attr = attrs[0]
+        strict = [a for a in calls[0].args if isinstance(a, _T) and a.op == "slice" and any(p not in (None, 0) for p in a.args[1:3])]
+        big = list(range(70000))
+        try:
+            it, selfo, calls = _run_pp(drv, D, spp, pp, raw_attr, big)
+        except (_Undecided, _Need) as x:
+            chk.unknown("O7.4", f"post-processing routine `{pp.name}` not evaluated on a list: {x}", pp)
+            continue
+        bad = []
+        if strict:
+            bad.append(f"only a part of `self.{raw_attr}` is processed ({calls[0].node and short(calls[0].node.args[0], 40)})")
+        if len(calls) != 1 or not calls[0].args or not isinstance(calls[0].args[0], list) or calls[0].args[0] != list(range(70000)):
+            got = calls[0].args[0] if calls and calls[0].args else None
+            bad.append(f"the post-processor receives {len(got) if isinstance(got, list) else got!r} of 70000 pending samples")
+        else:
+            at_call, content = calls[0].state
+            if at_call is calls[0].args[0] or (content is not None and len(content) > 0):
+                bad.append(f"`self.{raw_attr}` still holds the batch while it is processed (reset comes afterwards): samples arriving meanwhile are dropped by the reset, or the batch is processed again")
+        after = selfo.f.get(raw_attr)
+        if not isinstance(after, list) or len(after) != 0:
+            bad.append(f"after post-processing `self.{raw_attr}` holds {len(after) if isinstance(after, list) else after!r} element(s): they are processed again by the next round")
+        chk.ob("O7.4", "snapshot; reset; process(snapshot)", not bad, pp, "; ".join(bad) or f"raw list = self.{raw_attr}")
+    if raw_attr is None:
+        raise AnchorMissing("the attribute of Driver whose value reaches the post-processor")
+    return D, spp, pps, raw_attr
+
+
+def _o73(chk, drv, raw_attr, ships):
+    D, DA = drv.cls("Driver"), drv.cls("DriverActor")
+    h = drv.methods(DA).get("receiveMsg_UpdateSamples")
+    if h is None:
+        raise AnchorMissing("DriverActor.receiveMsg_UpdateSamples")
+    dm = drv.methods(D)
+    hx = _Expand(drv, DA).function(h)
+    mp = params_of(h)[1]
+    # the driver attribute of the actor and the Driver method the handler hands the message to
+    tgt = [(c.func.value.attr, c.func.attr) for c in walk_body(hx) if isinstance(c, ast.Call) and isinstance(c.func, ast.Attribute) and is_self_attr(c.func.value) and c.func.attr in dm
+           and any(isinstance(x, ast.Name) and x.id == mp for a in list(c.args) + [k.value for k in c.keywords] for x in ast.walk(a))]
+    if len(set(tgt)) != 1:
+        raise AnchorMissing(f"the Driver method that DriverActor.receiveMsg_UpdateSamples hands the message to: found {sorted(set(tgt))}")
+    dattr, mname = tgt[0]
+    us = dm[mname]
+
+    def fresh():
+        old = _rep(2, "old")
+        return old, _O("driver", D, drv, **{raw_attr: list(old)})
+
+    try:
+        bad = []
+        for payload in (_rep(3), []):
+            old, d = fresh()
+            it = _Interp([drv])
+            it.call(_Fn(us, drv, d), [payload], {}, us)
+            got = d.f.get(raw_attr)
+            if not (isinstance(got, list) and len(got) == len(old) + len(payload) and all(a is b for a, b in zip(got, old + payload))):
+                bad.append(f"a payload of {len(payload)} after 2 pending samples leaves {[getattr(x, 'name', x) for x in got] if isinstance(got, list) else got!r}")
+        chk.ob("O7.3", "raw_samples += samples", not bad, us, "; ".join(bad) or f"self.{raw_attr} grows by the whole payload in `{mname}`")
+    except (_Undecided, _Need) as x:
+        chk.unknown("O7.3", f"`{mname}` not evaluated: {x}", us)
+    # end to end: the message the worker's ship routine builds, delivered to the handler
+    flow = _flow_of(drv)
+    try:
+        bad = []
+        for n in ships:
+            sh = _Ship(drv, flow, drv.methods(drv.cls("Worker"))[n], _rep(3))
+            if not sh.msgs:
+                continue
+            old, d = fresh()
+            it = _Interp([drv])
+            it.call(_Fn(h, drv, _O("actor", DA, drv, **{dattr: d})), [sh.msgs[0][1], _T("global", "sender")], {}, h)
+            got = d.f.get(raw_attr)
+            if not (isinstance(got, list) and len(got) == 5 and all(isinstance(x, _O) for x in got) and [x.name for x in got] == ["old0", "old1", "s0", "s1", "s2"]):
+                bad.append(f"the shipped samples s0..s2 arrive as {[getattr(x, 'name', x) for x in got] if isinstance(got, list) else got!r}")
+        chk.ob("O7.3", "handler passes msg.samples", not bad, h, "; ".join(bad))
+    except (_Undecided, _Need) as x:
+        chk.unknown("O7.3", f"delivery of UpdateSamples not evaluated: {x}", h)
+
+
+# ---- O7.5 ------------------------------------------------------------------------------------------------------------------------------------------------
+_RECORDS = ("latency", "service_time", "processing_time")
+_N_TIMINGS = {0: 1, 1: 1, 2: 2, 3: 1}
+
+
+def _rep_samples(n):
+    """n representative request samples with pairwise distinct field values; samples 0..3 carry dependent timings (a timing shares task, sample type and client id with its
+    request - as Sample.dependent_timings builds it - and differs in everything else)."""
+    tasks = [_O(f"task{j}", name=f"task-{j}", meta_data={"task-meta": j},
+                operation=_O(f"operation{j}", name=f"op-of-task-{j}", type=f"type-of-task-{j}", meta_data={"op-meta": j})) for j in range(2)]
+    out = []
+    for i in range(n):
+        t = tasks[i % 2]
+        s = _O(f"sample{i}", client_id=100 + i, absolute_time=1000.0 + i, relative_time=10.0 + i, request_start=500.0 + i, task_start=490.0, task=t, sample_type=f"sample-type-{i}",
+               latency=i + 0.125, service_time=i + 0.25, processing_time=i + 0.5, throughput=None, total_ops=1 + i, total_ops_unit="ops", time_period=3.0 + i, percent_completed=None,
+               operation_name=f"op{i}", operation_type=f"optype{i}", operation_meta_data={"op-meta": i}, request_meta_data={"req-meta": i})
+        s.f["dependent_timings"] = [
+            _O(f"timing{i}.{j}", client_id=s.f["client_id"], task=t, sample_type=s.f["sample_type"], absolute_time=2000.0 + 10 * i + j, relative_time=20.0 + 10 * i + j,
+               request_start=600.0 + 10 * i + j, task_start=490.0, latency=0, service_time=i + 0.03125 * (j + 1), processing_time=0, throughput=0, total_ops=1 + i, total_ops_unit="ops",
+               time_period=3.0 + i, percent_completed=None, operation_name=f"subop{i}.{j}", operation_type=f"subtype{i}.{j}", operation_meta_data={"op-meta": i},
+               request_meta_data={"req-meta": i, "sub": j}, dependent_timings=[]) for j in range(_N_TIMINGS.get(i, 0))]
+        out.append(s)
+    return out
+
+
+def _ctx_objs(ctx, prefix):
+    out = []
+    for c in ctx:
+        for x in (c if isinstance(c, (tuple, list)) else [c]):
+            if isinstance(x, _O) and x.name.startswith(prefix):
+                out.append(x)
+    return out
+
+
+class _PostProcessed:
+    """SamplePostprocessor.__call__ evaluated for a batch of n representative samples and a down-sampling factor k: the records written (metrics-store calls named
+    put_value_cluster_level, arguments bound by the store's own signature), each with the sample / timing of the loop it was written under, and the throughput calls."""
+
+    def __init__(self, drv, met, SP, k, n):
+        put = met.methods(met.cls("MetricsStore")).get("put_value_cluster_level")
+        if put is None:
+            raise AnchorMissing("MetricsStore.put_value_cluster_level")
+        pnames = params_of(put)[1:]
+
+        def make(oracle):
+            it = _Interp([drv], oracle)
+            it.opaque = {"ThroughputCalculator"}
+            raw = _rep_samples(n)
+
+            def go():
+                o = it.call(_Cls(SP, drv), [], dict(metrics_store=_T("global", "store"), downsample_factor=k, track_meta_data={"track-meta": 1}, challenge_meta_data={"challenge-meta": 1}), SP)
+                it.effects.clear()
+                it.call(o, [raw], {}, SP)
+                return raw
+
+            return it, go
+
+        runs = _explore(make)
+        if len(runs) != 1:
+            raise _Undecided(f"{len(runs)} paths depend on values the rule has no representative for")
+        it, self.raw = runs[0]
+        raw_all = self.raw
+        self.records, self.calc = [], []
+        for e in it.effects:
+            if e.name == "put_value_cluster_level":
+                f = dict(zip(pnames, e.args))
+                f.update(e.kwargs)
+                smp, tim = _ctx_objs(e.ctx, "sample"), _ctx_objs(e.ctx, "timing")
+                if not smp and not tim:
+                    # an index loop binds no element: the record belongs to the one sample / timing whose fields its arguments were computed from
+                    rs, rt = {id(o): o for o in e.reads if o.name.startswith("sample")}, {id(o): o for o in e.reads if o.name.startswith("timing")}
+                    smp, tim = (list(rs.values()) if len(rs) == 1 else []), (list(rt.values()) if len(rt) == 1 else [])
+                elif not tim:
+                    rt = {id(o): o for o in e.reads if o.name.startswith("timing") and any(o is t for t in smp[-1].f["dependent_timings"])}
+                    tim = list(rt.values()) if len(rt) == 1 else []
+                if tim and not smp:
+                    smp = [s_ for s_ in raw_all if any(t is tim[-1] for t in s_.f["dependent_timings"])]
+                self.records.append((f, smp[-1] if smp else None, tim[-1] if tim else None, e.node))
+            elif any(_mentions(a, self.raw) or (isinstance(a, list) and a and all(isinstance(x, _O) and x.name.startswith("sample") for x in a)) for a in e.args + list(e.kwargs.values())) \
+                    and "logg" not in e.path.lower() and e.name not in ("len",):
+                self.calc.append(e)
+        self.k, self.n = k, n
+        self.kept = [s for i, s in enumerate(self.raw) if i % k == 0]
+
+
+def _field_diffs(f, o, name):
+    """differences between a written record and what the property demands for object o (sample or timing) and record `name`; unknown reads are returned separately."""
+    want = {"unit": "ms", "task": o.f["task"].f["name"], "operation": o.f["operation_name"], "operation_type": o.f["operation_type"], "sample_type": o.f["sample_type"],
+            "absolute_time": o.f["absolute_time"], "relative_time": o.f["relative_time"]}
+    bad, unk = [], []
+    v = f.get("value")
+    src = o.f[name]
+    if isinstance(v, _T) and v.op == "call" and (v.args[0].path() or "").endswith("seconds_to_ms") and len(v.args[1]) == 1:
+        if not _same(v.args[1][0], src):
+            bad.append(f"value=seconds_to_ms({v.args[1][0]!r}) (expected the {name} {src!r} of {o.name})")
+    elif isinstance(v, (int, float)) and not isinstance(v, bool):
+        if abs(v - 1000 * src) > 1e-9:
+            bad.append(f"value={v!r} (expected {1000 * src!r} ms)")
+    else:
+        unk.append(f"value={v!r}")
+    for k, w in want.items():
+        g = f.get(k)
+        if isinstance(g, _T):
+            unk.append(f"{k}={g!r}")
+        elif not _same(g, w):
+            bad.append(f"{k}={g!r} (expected {w!r} of {o.name})")
+    return bad, unk
+
+
+def _o75(chk, drv, met):
+    SP = drv.cls("SamplePostprocessor")
+    spc = drv.methods(SP).get("__call__")
+    if spc is None:
+        raise AnchorMissing("SamplePostprocessor.__call__")
+    try:
+        runs = [_PostProcessed(drv, met, SP, k, 6) for k in (1, 2, 3)]
+        one = _PostProcessed(drv, met, SP, 1, 1)
+        none = _PostProcessed(drv, met, SP, 1, 0)
+    except (_Undecided, _Need) as x:
+        chk.unknown("O7.5", f"SamplePostprocessor.__call__ not evaluated on the representative batch: {x}", spc)
+        return spc
+    main = lambda r: [(f, s, n_) for f, s, t, n_ in r.records if s is not None and t is None and f.get("name") != "throughput"]  # noqa: E731
+    dep = lambda r: [(f, s, t, n_) for f, s, t, n_ in r.records if t is not None]  # noqa: E731
+    site = lambda recs: next((n_ for *_, n_ in recs if n_ is not None), spc)  # noqa: E731
+    stray = [f.get("name") for r in runs for f, s, t, _ in r.records if s is None and t is None and f.get("name") in _RECORDS]
+    if stray:
+        chk.unknown("O7.5", f"record(s) {sorted(set(stray))}: the sample they belong to is not recognised (not written under a loop over the batch, arguments not read from one sample)", spc)
+        return spc
+    # A: exactly the three records per kept sample
+    bad = []
+    for r in runs:
+        for s in r.kept:
+            names = sorted(str(f.get("name")) for f, s2, _ in main(r) if s2 is s)
+            if names != sorted(_RECORDS):
+                bad.append(f"factor {r.k}: {s.name} yields {names}")
+    chk.ob("O7.5", "exactly three records per kept sample", not bad, site(main(runs[0])), "; ".join(bad[:3]) or f"names={sorted(_RECORDS)}")
+    unknown = []
+    for name in _RECORDS:
+        bad = []
+        for r in runs:
+            got = [s.name for f, s, _ in main(r) if f.get("name") == name]
+            want = [s.name for s in r.kept]
+            if sorted(got) != sorted(want):
+                bad.append(f"factor {r.k}: written for {got}, the down-sampling keeps {want}")
+        chk.ob("O7.5", "record guarded only by the down-sampling test", not bad, site([x for x in main(runs[0]) if x[0].get("name") == name]), "; ".join(bad[:2]) or f"{name}: one per kept sample for factors 1, 2, 3")
+    cid_vals = []
+    for name in _RECORDS:
+        bad, unk, nocid, mdunk = [], [], [], []
+        recs = [(f, s, n_) for r in runs for f, s, n_ in main(r) if f.get("name") == name]
+        for f, s, _ in recs:
+            b, u_ = _field_diffs(f, s, name)
+            bad += b
+            unk += u_
+            md = f.get("meta_data")
+            if isinstance(md, dict):
+                if "client_id" in md:
+                    cid_vals.append((md["client_id"], s))
+                else:
+                    nocid.append(f"{s.name}: meta_data keys {sorted(map(str, md))}")
+            else:
+                mdunk.append(f"meta_data={md!r}"[:80])
+        st = site(recs)
+        if unk and not bad:
+            unknown.append(f"{name} record: {unk[0]}")
+        chk.ob("O7.5", f"{name} record fed from the sample's {name} and identity fields", not bad, st, "; ".join(bad[:3]))
+        if mdunk and not nocid:
+            unknown.append(f"{name} record: {mdunk[0]}")
+        chk.ob("O7.5", f"{name} record carries the client id", not nocid, st, "; ".join(nocid[:2]))
+    bad = [f"{s.name}: client_id={v!r} (expected {s.f['client_id']})" for v, s in cid_vals if not _same(v, s.f["client_id"])]
+    if not cid_vals:
+        unknown.append("no client id located in any record")
+    chk.ob("O7.5", "client id meta data is the sample's client id", not bad, site(main(runs[0])), "; ".join(bad[:2]))
+    # dependent timings
+    bad_count, bad_each, bad_fields, bad_guard, unk = [], [], [], [], []
+    for r in runs:
+        for i, s in enumerate(r.raw):
+            ts = s.f["dependent_timings"]
+            got = [(f, t) for f, s2, t, _ in dep(r) if any(t is x for x in ts)]
+            if s in r.kept:
+                if len(got) != len(ts):
+                    bad_count.append(f"factor {r.k}: {s.name} has {len(ts)} dependent timing(s), {len(got)} record(s)")
+                for t in ts:
+                    mine = [f for f, t2 in got if t2 is t]
+                    if len(mine) != 1 or mine[0].get("name") != "service_time":
+                        bad_each.append(f"factor {r.k}: {t.name} yields {[f.get('name') for f in mine]}")
+                    for f in mine[:1]:
+                        b, u_ = _field_diffs(f, t, "service_time")
+                        bad_fields += b
+                        unk += u_
+                        md = f.get("meta_data")
+                        if isinstance(md, dict) and "client_id" in md and not _same(md["client_id"], s.f["client_id"]):
+                            bad_fields.append(f"{t.name}: client_id={md['client_id']!r}")
+            elif got:
+                bad_guard.append(f"factor {r.k}: {s.name} is dropped by the down-sampling but {len(got)} of its dependent timings are recorded")
+    ds = site(dep(runs[0]))
+    chk.ob("O7.5", "one record per dependent timing", not bad_count, ds, "; ".join(bad_count[:2]) or "loops=1 puts=1")
+    if unk and not bad_fields:
+        unknown.append(f"dependent record: {unk[0]}")
+    chk.ob("O7.5", "dependent record fed from the timing itself", not bad_fields, ds, "; ".join(bad_fields[:3]))
+    chk.ob("O7.5", "dependent record unconditional within its loop", not bad_each, ds, "; ".join(bad_each[:2]))
+    chk.ob("O7.5", "dependent timings under the same down-sampling guard", not bad_guard, ds, "; ".join(bad_guard[:2]))
+    # throughput from the unfiltered batch
+    bad = []
+    for r in runs:
+        calls = [e for e in r.calc if e.name != "put_value_cluster_level"]
+        whole = [e for e in calls if any(isinstance(a, list) and len(a) == len(r.raw) and all(x is y for x, y in zip(a, r.raw)) for a in e.args + list(e.kwargs.values()))]
+        if len(whole) != 1 or len(calls) != 1:
+            bad.append(f"factor {r.k}: {len(calls)} call(s) receive samples, {len(whole)} of them the whole batch of {len(r.raw)}"
+                       + "".join(f" ({e.path} gets {len([a for a in e.args if isinstance(a, list)][0]) if any(isinstance(a, list) for a in e.args) else '?'})" for e in calls if e not in whole))
+    tc = runs[0].calc[0].node if runs[0].calc else spc
+    chk.ob("O7.5", "throughput computed from the unfiltered list", not bad, tc, "; ".join(bad[:2]) or (short(tc, 60) if tc is not spc else ""))
+    # no early exit of a loop over the batch (structural, on the routine together with its helpers)
+    sx = _Expand(drv, SP).function(spc)
+    rawp = params_of(spc)[1] if len(params_of(spc)) > 1 else None
+    sdefs = local_defs(sx)
+    loops = [n for n in walk_body(sx) if isinstance(n, (ast.For, ast.While)) and rawp is not None
+             and any(isinstance(x, ast.Name) and x.id == rawp for x in ast.walk(source.inline_node(n.iter if isinstance(n, ast.For) else n.test, sdefs)))]
+    exits = [x for L in loops for x in source.walk_local(L, include_root=False) if isinstance(x, (ast.Break, ast.Return))]
+    chk.ob("O7.5", "sample loop has no early exit", not exits, exits[0] if exits else (loops[0] if loops else spc), "" if not exits else f"`{short(exits[0], 30)}` at line {exits[0].lineno} ends the loop over the batch early")
+    ok = len(main(one)) == 3 and len([e for e in one.calc if e.name != "put_value_cluster_level"]) == 1 and not main(none)
+    chk.ob("O7.5", "early return only for an empty batch", ok, spc, "" if ok else f"a batch of one sample yields {len(main(one))} record(s) and {len(one.calc)} throughput call(s)")
+    for m in unknown[:3]:
+        chk.unknown("O7.5", m + " - no representative value for what it reads", spc)
+    return spc
+
+
+# ---- O7.6 / O7.8 -------------------------------------------------------------------------------------------------------------------------------------------
+def _resolves_to(e, name, defs):
+    """expression e is the local `name` or a chain of single-assignment copies of it"""
+    seen = 0
+    while isinstance(e, ast.Name) and seen < 6:
+        if e.id == name:
+            return True
+        e = defs.get(e.id)
+        seen += 1
+    return False
+
+
+def _eval_paths(mods, fn, mod, mkself, args=(), kwargs=None, setup=None):
+    """method fn evaluated on a fresh object for every sequence of decisions on unknown values: [(interp, self object, returned value)]"""
+    def make(oracle):
+        it = _Interp(mods, oracle)
+        o = mkself()
+        if setup is not None:
+            setup(it, o)
+        return (it, o), lambda: it.call(_Fn(fn, mod, o), list(args), dict(kwargs or {}), fn)
+
+    return [(it, o, ret) for (it, o), ret in _explore(make)]
+
+
+def _paths(mods, fn, mod, selfname, selfcls, args, kwargs):
+    return [(it, o) for it, o, _ in _eval_paths(mods, fn, mod, lambda: _O(selfname, selfcls, mod), args, kwargs)]
+
+
+def _o76(chk, repo, drv, rc, met, spp_attr, pps):
+    D, DA = drv.cls("Driver"), drv.cls("DriverActor")
+    dm, dam = drv.methods(D), drv.methods(DA)
+    hj = dam.get("receiveMsg_JoinPointReached")
+    ent = sorted({c.func.attr for c in walk_body(hj) if isinstance(c, ast.Call) and isinstance(c.func, ast.Attribute) and is_self_attr(c.func.value) and c.func.attr in dm}) if hj is not None else []
+    jr = dm[ent[0]] if len(ent) == 1 else dm.get("joinpoint_reached")
+    if jr is None:
+        raise AnchorMissing("the Driver method that handles JoinPointReached")
+    X = _Expand(drv, D)
+    jx = X.function(jr)
+    te = [c for c in walk_body(jx) if isinstance(c, ast.Call) and last_attr(c.func) == "to_externalizable"]
+    orig = [c for c in _calls_named(repo, "to_externalizable") if source.enclosing_class(c) is D]
+    closure = {jr.name} | X.inlined
+    for c in orig:
+        fn = source.enclosing_func(c)
+        if fn.name not in closure:
+            chk.unknown("O7.6", f"the hand-over in Driver.{fn.name} is not reached from the join-point handling through helpers that can be analysed with it", c)
+    if len(te) < 2:
+        raise AnchorMissing(f"to_externalizable calls in the join-point handling of Driver (found {len(te)} of {len(orig)})")
+    # who may call: a helper on the hand-over path has no caller outside the join-point handling
+    outside = []
+    on_path = {source.enclosing_func(c).name for c in orig}
+    grew = True
+    while grew:  # the helpers through which the join-point handling reaches a hand-over
+        grew = False
+        for name in closure - on_path:
+            if any(isinstance(x, ast.Call) and is_self_attr(x.func) and x.func.attr in on_path for x in walk_body(dm[name])):
+                on_path.add(name)
+                grew = True
+    for name in sorted(on_path - {jr.name}):
+        for x in _calls_named(repo, name):
+            if source.enclosing_class(x) is D and is_self_attr(x.func) and source.enclosing_func(x).name not in closure:
+                outside.append(x)
+    imf = met.methods(met.cls("InMemoryMetricsStore")).get("to_externalizable")
+    clear = params_of(imf)[1] if imf is not None and len(params_of(imf)) > 1 else "clear"
+    gj = cfg_of(jx)
+    jdefs = local_defs(jx)
+    ppc = [c for c in walk_body(jx) if isinstance(c, ast.Call) and (is_self_attr(c.func, spp_attr) or (is_self_attr(c.func) and c.func.attr in {p.name for p in pps}))]
+    pre_pp = False
+    if not ppc and hj is not None:
+        hx = _Expand(drv, DA).function(hj)
+        gh = cfg_of(hx)
+        jc = [c for c in walk_body(hx) if isinstance(c, ast.Call) and isinstance(c.func, ast.Attribute) and is_self_attr(c.func.value) and c.func.attr == jr.name]
+        pc = [c for c in walk_body(hx) if isinstance(c, ast.Call) and isinstance(c.func, ast.Attribute) and is_self_attr(c.func.value) and c.func.attr in {p.name for p in pps}]
+        pre_pp = bool(jc) and bool(pc) and all(gh.dominated_by_nodes(gh.node_of(j), [gh.node_of(p_) for p_ in pc]) for j in jc)
+    cbs = []
+    for c in te:
+        cl = arg_of(c, 0, clear)
+        if cl is None or isinstance(cl, ast.Constant):
+            chk.ob("O7.6", "hand-over clears the driver's store", cl is not None and cl.value is True, c, f"{clear}={u(cl) if cl is not None else 'default False'}")
+        else:
+            chk.unknown("O7.6", f"`{short(cl, 40)}` passed for `{clear}` is not a literal", c)
+        ok = (pre_pp or (bool(ppc) and gj.dominated_by_nodes(gj.node_of(c), [gj.node_of(p_) for p_ in ppc]))) and not outside
+        chk.ob("O7.6", "post-processing precedes the hand-over", ok, c,
+               f"also reachable through Driver.{source.enclosing_func(outside[0]).name} without post-processing" if outside else "no post-processing on some path to it" if not ok else "")
+        # the externalised value reaches a callback of the driver actor
+        asg = source.parent(c)
+        v = asg.targets[0].id if isinstance(asg, ast.Assign) and len(asg.targets) == 1 and isinstance(asg.targets[0], ast.Name) and asg.value is c else None
+
+        def carries(a):
+            return a is c or (v is not None and _resolves_to(a, v, jdefs))
+
+        cb = [x for x in walk_body(jx) if isinstance(x, ast.Call) and isinstance(x.func, ast.Attribute) and is_self_attr(x.func.value) and x.func.attr in dam
+              and any(carries(a) for a in list(x.args) + [k.value for k in x.keywords])]
+        if v is not None and sum(1 for n in walk_body(jx) if isinstance(n, ast.Name) and isinstance(n.ctx, ast.Store) and n.id == v) > 1:
+            # the local is bound more than once in the routine: only uses dominated by this binding count
+            cb = [x for x in cb if gj.dominated_by_nodes(gj.node_of(x), [gj.node_of(c)])]
+        if v is None and not cb:
+            chk.unknown("O7.6", f"what `{short(source.enclosing_stmt(c), 60)}` does with the externalised metrics is not recognised", c)
+            continue
+        chk.ob("O7.6", "externalised metrics handed to the driver actor", len(cb) == 1, c, short(cb[0], 60) if cb else "value not passed on")
+        if cb:
+            chk.ob("O7.6", "hand-over callback reached on every normal path after externalising", gj.must_pass(gj.node_of(c), [gj.node_of(cb[0])], normal_only=True), cb[0], "")
+            b = source.bind_args(cb[0], dam[cb[0].func.attr])
+            par = [p for p, a in b.items() if carries(a)]
+            if par and (cb[0].func.attr, par[0]) not in cbs:
+                cbs.append((cb[0].func.attr, par[0]))
+    # the message chain, evaluated: actor callback -> message -> race-control handler -> coordinator -> bulk_add
+    BA, CO = rc.cls("BenchmarkActor"), rc.cls("BenchmarkCoordinator")
+    bam, com = rc.methods(BA), rc.methods(CO)
+    final = None
+    if len(cbs) < 2:
+        chk.unknown("O7.6", f"driver-actor callbacks that receive the externalised metrics: found {cbs}, expected one per kind of step boundary", jr)
+    for cbname, par in cbs:
+        cbf = dam[cbname]
+        others = [p for p in params_of(cbf)[1:] if p != par]
+        M = _O("metrics")
+        try:
+            sent, per_path = [], []
+            import itertools
+            for combo in itertools.islice(itertools.product((0, 1.0), repeat=len(others)), 4):
+                for it, o in _paths([drv], cbf, drv, "actor", DA, [], {par: M, **dict(zip(others, combo))}):
+                    mine = [a for e in it.effects for a in e.args + list(e.kwargs.values()) if isinstance(a, _O) and a.cls is not None and a is not o and any(v_ is M for v_ in a.f.values())]
+                    per_path.append((combo, len(mine)))
+                    sent += mine
+        except (_Undecided, _Need) as x:
+            chk.unknown("O7.6", f"DriverActor.{cbname} not evaluated: {x}", cbf)
+            continue
+        msgname = sent[0].cls.name if sent else "?"
+        bad = [f"{dict(zip(others, combo))}: {k} message(s) carrying the metrics" for combo, k in per_path if k != 1]
+        chk.ob("O7.6", f"{msgname}: metrics parameter becomes the message's first field, sent unconditionally", not bad, cbf, "; ".join(bad[:2]))
+        if not sent:
+            chk.unknown("O7.6", f"no message built by DriverActor.{cbname} carries the metrics it was given", cbf)
+            continue
+        msg = sent[0]
+        fld = [k for k, v_ in msg.f.items() if v_ is M]
+        chk.ob("O7.6", f"{msgname}.metrics := first constructor parameter", len(fld) == 1, msg.cls, f"field(s) {fld} hold the externalised metrics")
+        hname = f"receiveMsg_{msgname}"
+        h = bam.get(hname)
+        if h is None:
+            chk.unknown("O7.6", f"no handler {hname} in BenchmarkActor", BA)
+            continue
+        try:
+            runs = _paths([rc, drv], h, rc, "actor", BA, [msg, _T("global", "sender")], {})
+        except (_Undecided, _Need) as x:
+            chk.unknown("O7.6", f"BenchmarkActor.{hname} not evaluated: {x}", h)
+            continue
+        cattr = sorted({n.targets[0].attr for f_ in bam.values() for n in walk_body(f_) if isinstance(n, ast.Assign) and len(n.targets) == 1 and is_self_attr(n.targets[0])
+                        and isinstance(n.value, ast.Call) and last_attr(n.value.func) == CO.name})
+        to_co = (lambda e: e.path.startswith(f"actor.{cattr[0]}.")) if len(cattr) == 1 else (lambda e: True)
+        passes = [[e for e in it.effects if to_co(e) and any(a is M for a in e.args + list(e.kwargs.values()))] for it, _ in runs]
+        ok = all(len(p) == 1 for p in passes) and len({p[0].name for p in passes}) == 1
+        if not ok and len(cattr) != 1:
+            chk.unknown("O7.6", f"which attribute of BenchmarkActor holds the coordinator is not recognised ({cattr})", h)
+            continue
+        chk.ob("O7.6", f"{hname} passes msg.metrics to the coordinator exactly once", ok, passes[0][0].node if passes and passes[0] else h,
+               "" if ok else f"calls receiving the metrics per path: {[[e.path for e in p] for p in passes][:3]}")
+        if hname == "receiveMsg_BenchmarkComplete":
+            final = (h, passes, ok)
+        if not (passes and passes[0]):
+            continue
+        coname = passes[0][0].name
+        co = com.get(coname)
+        if co is None:
+            chk.unknown("O7.6", f"`{passes[0][0].path}` is not a method of BenchmarkCoordinator", passes[0][0].node)
+            continue
+        try:
+            runs = _paths([rc, drv], co, rc, "coordinator", CO, [M], {})
+        except (_Undecided, _Need) as x:
+            chk.unknown("O7.6", f"BenchmarkCoordinator.{coname} not evaluated: {x}", co)
+            continue
+        adds = [[e for e in it.effects if e.name == "bulk_add" and any(a is M for a in e.args + list(e.kwargs.values()))] for it, _ in runs]
+        ok = all(len(a) == 1 for a in adds)
+        chk.ob("O7.6", f"coordinator.{coname}: exactly one unconditional bulk_add(metrics)", ok, co, "" if ok else f"bulk_add calls receiving the metrics per path: {[len(a) for a in adds]}")
+    return final
+
+
+def _o78(chk, rc, final):
+    BA = rc.cls("BenchmarkActor")
+    h = rc.methods(BA).get("receiveMsg_BenchmarkComplete")
+    if h is None:
+        raise AnchorMissing("BenchmarkActor.receiveMsg_BenchmarkComplete")
+    if final is None or final[0] is not h:
+        chk.unknown("O7.8", "the BenchmarkComplete message built by the driver actor was not located (see O7.6)", h)
+        return
+    _, passes, ok = final
+    node = passes[0][0].node if passes and passes[0] else None
+    if ok and node is not None and source.enclosing_func(node) is h:
+        gh = cfg_of(h)
+        ok = gh.must_pass(gh.entry, [gh.node_of(node)])
+    chk.ob("O7.8", "the final metrics of BenchmarkComplete reach the coordinator on every path", ok, node if node is not None else h, "")
+
+
+# ---- O7.7 / O7.10 ------------------------------------------------------------------------------------------------------------------------------------------
+def _o77(chk, met):
+    IM, MS = met.cls("InMemoryMetricsStore"), met.cls("MetricsStore")
+    te_f = met.methods(IM).get("to_externalizable")
+    if te_f is None:
+        raise AnchorMissing("InMemoryMetricsStore.to_externalizable")
+    cp = params_of(te_f)[1] if len(params_of(te_f)) > 1 else None
+    if cp is None:
+        raise AnchorMissing("the clear parameter of InMemoryMetricsStore.to_externalizable")
+
+    def ext(attr, docs, clear):
+        out = []
+
+        def make(oracle):
+            it = _Interp([met], oracle)
+            o = _O("store", IM, met, **({attr: docs()} if attr else {}))
+            return (it, o), lambda: it.call(_Fn(te_f, met, o), [], {cp: clear}, te_f)
+
+        for (it, o), ret in _explore(make):
+            out.append((it, o, ret))
+        return out
+
+    docs_attr = None
+    try:
+        # which attribute is serialised: evaluated without values, the returned term names it
+        attrs = sorted({a for it, o, ret in ext(None, None, False) for a in _self_attr_terms(ret, o)})
+        if len(attrs) != 1:
+            chk.unknown("O7.7", f"InMemoryMetricsStore.to_externalizable: the returned representation is built from attribute(s) {attrs}", te_f)
+        else:
+            docs_attr = attrs[0]
+            orig = _rep(3, "doc")
+            res = {c: ext(docs_attr, lambda: list(orig), c) for c in (True, False)}
+            ok = all(_mentions(ret, orig) for it, o, ret in res[True])
+            chk.ob("O7.7", "snapshot before reset", ok, te_f, "" if ok else "with clear=True the externalised value no longer contains the documents that were stored")
+            bad = []
+            for it, o, ret in res[True]:
+                after = o.f.get(docs_attr)
+                if not (isinstance(after, list) and not after):
+                    bad.append(f"clear=True leaves {len(after) if isinstance(after, list) else after!r} document(s) in the store: handed over again at the next boundary")
+            for it, o, ret in res[False]:
+                after = o.f.get(docs_attr)
+                if not (isinstance(after, list) and len(after) == 3 and all(a is b for a, b in zip(after, orig))):
+                    bad.append("clear=False changes the stored documents")
+            chk.ob("O7.7", "reset iff clear", not bad, te_f, "; ".join(bad[:2]))
+            ok = all(_mentions(ret, orig) for it, o, ret in res[False])
+            chk.ob("O7.7", "the snapshot is serialised", ok, te_f, "" if ok else "the externalised value is not built from the stored documents")
+    except (_Undecided, _Need) as x:
+        chk.unknown("O7.7", f"InMemoryMetricsStore.to_externalizable not evaluated: {x}", te_f)
+    ba = met.methods(MS).get("bulk_add")
+    if ba is None:
+        raise AnchorMissing("MetricsStore.bulk_add")
+    addname = None
+    if docs_attr is not None:
+        try:
+            restored, old = _rep(3, "restored"), _rep(1, "old")
+            it = _Interp([met])
+            it.model = lambda path, args, kwargs: list(restored) if path.endswith("loads") else args[0] if path.endswith("decompress") and args else NotImplemented
+            o = _O("store", IM, met, **{docs_attr: list(old)})
+            it.call(_Fn(ba, met, o), ["memento"], {}, ba)
+            if not any(e.name == "loads" for e in it.effects):
+                chk.unknown("O7.7", "MetricsStore.bulk_add: how the hand-over is restored (…loads) is not recognised", ba)
+            else:
+                got = o.f.get(docs_attr)
+                ok = isinstance(got, list) and [getattr(x, "name", x) for x in got] == ["old0", "restored0", "restored1", "restored2"]
+                chk.ob("O7.7", "bulk_add adds every restored document", ok, ba, "" if ok else f"after restoring 3 documents into a store holding 1: {[getattr(x, 'name', x) for x in got] if isinstance(got, list) else got!r}")
+            # the per-document hook bulk_add uses, evaluated on its own
+            hooks = sorted({c.func.attr for c in ast.walk(_Expand(met, MS, keep=set(met.methods(IM))).function(ba)) if isinstance(c, ast.Call) and is_self_attr(c.func) and c.func.attr in met.methods(IM)})
+            addname = hooks[0] if len(hooks) == 1 else None
+            if addname is None:
+                chk.unknown("O7.7", f"the per-document hook bulk_add calls on the store: found {hooks}", ba)
+            else:
+                addf = met.methods(IM)[addname]
+                o = _O("store", IM, met, **{docs_attr: list(old)})
+                d = _O("doc")
+                _Interp([met]).call(_Fn(addf, met, o), [d], {}, addf)
+                got = o.f.get(docs_attr)
+                ok = isinstance(got, list) and len(got) == 2 and got[0] is old[0] and got[1] is d
+                chk.ob("O7.7", "_add appends the document", ok, addf, "" if ok else f"store holds {got!r} after adding one document to one")
+        except (_Undecided, _Need) as x:
+            chk.unknown("O7.7", f"MetricsStore.bulk_add / the store's add hook not evaluated: {x}", ba)
+    # _put_metric reaches the add hook on every normal path
+    pm = met.methods(MS).get("_put_metric")
+    if pm is None:
+        raise AnchorMissing("MetricsStore._put_metric")
+    px = _Expand(met, MS, keep=(addname or "_add",)).function(pm)
+    gp = cfg_of(px)
+    addc = [gp.node_of(n) for n in walk_body(px) if isinstance(n, ast.Call) and is_self_attr(n.func, addname or "_add")]
+    if not addc:
+        chk.unknown("O7.7", f"no call of the store's add hook `{addname or '_add'}` in MetricsStore._put_metric", pm)
+    else:
+        chk.ob("O7.7", "_put_metric stores the record on every normal path", gp.must_pass(gp.entry, addc), pm, "")
+    return docs_attr
+
+
+class _EsFlush:
+    """roles in EsMetricsStore, derived by evaluation: the buffer attribute (what the add hook appends to) and, in flush, the call that receives the buffer (the send)."""
+
+    def __init__(self, met):
+        self.EM = EM = met.cls("EsMetricsStore")
+        emm = met.methods(EM)
+        self.add, self.fl = emm.get("_add"), emm.get("flush")
+        if self.fl is None or self.add is None:
+            raise AnchorMissing("EsMetricsStore.flush / EsMetricsStore._add")
+        d = _O("doc")
+        it = _Interp([met])
+        o = _O("store", EM, met)
+        it.call(_Fn(self.add, met, o), [d], {}, self.add)
+        bufs = sorted({e.path.split(".")[1] for e in it.effects if e.path.startswith("store.") and e.path.count(".") == 2 and any(a is d for a in e.args)}
+                      | {a for a, v in o.f.items() if _mentions(v, d)})
+        if len(bufs) != 1:
+            raise AnchorMissing(f"the buffer attribute of EsMetricsStore (what `_add` appends the record to): found {bufs}")
+        self.buf = bufs[0]
+        self.met = met
+
+    def run(self, content, refresh):
+        """[(interp, store object, send effects)] per path"""
+        met, EM, buf = self.met, self.EM, self.buf
+
+        def make(oracle):
+            it = _Interp([met], oracle)
+            o = _O("store", EM, met, **{buf: list(content)})
+            it.watch = lambda: (o.f.get(buf), list(o.f[buf]) if isinstance(o.f.get(buf), list) else None)
+            return (it, o), lambda: it.call(_Fn(self.fl, met, o), [], {params_of(self.fl)[1]: refresh} if len(params_of(self.fl)) > 1 else {}, self.fl)
+
+        out = []
+        for (it, o), _ in _explore(make):
+            sends = [e for e in it.effects if "logg" not in e.path.lower() and any(isinstance(a, list) and (a is e.state[0] or (a and all(isinstance(x, _O) and x.name.startswith("buffered") for x in a)) or (not content and a == []))
+                                                                                  for a in e.args + list(e.kwargs.values()))]
+            out.append((it, o, sends))
+        return out
+
+    def send_nodes(self):
+        return [e.node for _, _, sends in self.run(_rep(2, "buffered"), True) for e in sends]
+
+
+def _o710(chk, met):
+    try:
+        es = _EsFlush(met)
+        EM, buf, fl = es.EM, es.buf, es.fl
+        old, d = _rep(1, "buffered"), _O("doc")
+        o = _O("store", EM, met, **{buf: list(old)})
+        _Interp([met]).call(_Fn(es.add, met, o), [d], {}, es.add)
+        got = o.f.get(buf)
+        ok = isinstance(got, list) and len(got) == 2 and got[0] is old[0] and got[1] is d
+        chk.ob("O7.10", "_add appends the record to the buffer", ok, es.add, "" if ok else f"buffer holds {got!r} after adding one record to one")
+        content = _rep(2, "buffered")
+        bad_send, bad_empty = [], []
+        nodes = []
+        for refresh in (True, False):
+            for it, o, sends in es.run(content, refresh):
+                whole = [e for e in sends if any(isinstance(a, list) and len(a) == 2 and all(x is y for x, y in zip(a, content)) for a in e.args + list(e.kwargs.values()))]
+                nodes += [e.node for e in sends]
+                if len(sends) != 1 or len(whole) != 1:
+                    bad_send.append(f"refresh={refresh}: {len(sends)} call(s) receive the buffer, {len(whole)} of them all 2 buffered records")
+                elif whole[0].state[1] is None or len(whole[0].state[1]) != 2:
+                    bad_empty.append(f"refresh={refresh}: the buffer holds {whole[0].state[1]!r} when the send is issued")
+                after = o.f.get(buf)
+                if not (isinstance(after, list) and not after):
+                    bad_empty.append(f"refresh={refresh}: {len(after) if isinstance(after, list) else after!r} record(s) remain buffered after the flush: sent again by the next one")
+        chk.ob("O7.10", "flush sends the whole buffer (guarded only by non-emptiness)", not bad_send, nodes[0] if nodes else fl, "; ".join(bad_send[:2]))
+        # only after: on the routine's control flow, the reset is not followed by the send and every normal path from the send reaches it
+        rs = [n for n in walk_body(fl) if isinstance(n, (ast.Assign, ast.AugAssign)) and any(is_self_attr(x, buf) and isinstance(x.ctx, ast.Store) for t in (n.targets if isinstance(n, ast.Assign) else [n.target]) for x in ast.walk(t))]
+        bi = [n for n in dict.fromkeys(nodes) if n is not None and source.enclosing_func(n) is fl]
+        if bi and rs and not bad_empty:
+            gfl = cfg_of(fl)
+            if any(gfl.path_exists(gfl.node_of(r), gfl.node_of(bi[0])) for r in rs):
+                bad_empty.append("the buffer can be emptied on a path that reaches the send afterwards")
+            if not gfl.must_pass(gfl.node_of(bi[0]), [gfl.node_of(r) for r in rs], normal_only=True):
+                bad_empty.append("a normal path from the send leaves flush without emptying the buffer")
+        chk.ob("O7.10", "buffer emptied after (and only after) the send returned", not bad_empty, rs[0] if rs else fl, "; ".join(bad_empty[:2]))
+    except (_Undecided, _Need) as x:
+        chk.unknown("O7.10", f"EsMetricsStore.flush / _add not evaluated: {x}", met.cls("EsMetricsStore"))
+    flush_no_fallible_gap(chk, "O7.10", met)
+    EM, MS, IM = met.cls("EsMetricsStore"), met.cls("MetricsStore"), met.cls("InMemoryMetricsStore")
+    te2 = met.methods(EM).get("to_externalizable")
+    if te2 is None:
+        raise AnchorMissing("EsMetricsStore.to_externalizable")
+    try:
+        cp = params_of(te2)[1] if len(params_of(te2)) > 1 else None
+        rets = [ret for c in (True, False) for _, _, ret in _eval_paths([met], te2, met, lambda: _O("store", EM, met), [], {cp: c} if cp else {})]
+        chk.ob("O7.10", "hand-over representation is None", all(r is None for r in rets), te2, "" if all(r is None for r in rets) else f"returns {rets!r}"[:120])
+    except (_Undecided, _Need) as x:
+        chk.unknown("O7.10", f"EsMetricsStore.to_externalizable not evaluated: {x}", te2)
+    ba2 = met.methods(MS).get("bulk_add")
+    if ba2 is None:
+        raise AnchorMissing("MetricsStore.bulk_add")
+    try:
+        bad = []
+        for it, o, _ in _eval_paths([met], ba2, met, lambda: _O("store", IM, met), [None]):
+            touched = [e.path for e in it.effects if "logg" not in e.path.lower() and e.name not in ("debug", "info")]
+            if touched or o.f:
+                bad.append(f"a None hand-over reaches {touched[:2] or sorted(o.f)}")
+        chk.ob("O7.10", "bulk_add ignores an empty (None) hand-over", not bad, ba2, "; ".join(bad[:2]))
+    except (_Undecided, _Need) as x:
+        chk.unknown("O7.10", f"MetricsStore.bulk_add(None) not evaluated: {x}", ba2)
+
+
+# ---- O7.9 ----------------------------------------------------------------------------------------------------------------------------------------------------
+def _o79(chk, drv):
+    flow = _flow_of(drv)
+    W = drv.cls("Worker")
+    wm = drv.methods(W)
+    ship = set(flow.drainers())
+    handlers = {n for n in wm if n.startswith("receiveMsg_") or n == "receiveUnrecognizedMessage"}
+
+    def is_barrier(c, defs):
+        if not (isinstance(c, ast.Call) and last_attr(c.func) in ("send", "tell") and len(c.args) >= 2):
+            return False
+        m = c.args[1]
+        m = defs.get(m.id, m) if isinstance(m, ast.Name) else m
+        return isinstance(m, ast.Call) and last_attr(m.func) == "JoinPointReached"
+
+    # the routine in which the join-point arm is visible: the outermost non-handler method that, together with its helpers, sends JoinPointReached
+    cands = {}
+    for n, f in wm.items():
+        if n in ship or n == "__init__":
+            continue
+        X = _Expand(drv, W, keep=ship)
+        fx = X.function(f)
+        fdefs = local_defs(fx)
+        if any(is_barrier(c, fdefs) for c in walk_body(fx)):
+            cands[n] = (fx, set(X.inlined))
+    pool = {n: v for n, v in cands.items() if n not in handlers} or cands
+    outer = [n for n in pool if not any(n in inl for m, (_, inl) in pool.items() if m != n)]
+    if len(outer) != 1:
+        raise AnchorMissing(f"the routine of Worker that sends JoinPointReached: found {sorted(outer) or sorted(cands)}")
+    wd, (wx, inlined) = wm[outer[0]], pool[outer[0]]
+    gw, wdefs = cfg_of(wx), local_defs(wx)
+    jp = [c for c in walk_body(wx) if is_barrier(c, wdefs)]
+    sc = [c for c in walk_body(wx) if isinstance(c, ast.Call) and is_self_attr(c.func) and c.func.attr in ship]
+    ok = bool(sc) and all(gw.dominated_by_nodes(gw.node_of(j), [gw.node_of(c) for c in sc]) for j in jp)
+    chk.ob("O7.9", "send_samples() on every path to JoinPointReached", ok, jp[0], "" if ok else "the final drain is conditional or missing")
+    drop = [n for n in walk_body(wx) if isinstance(n, ast.Assign) and any(is_self_attr(t, flow.sampler) for t in n.targets) and source.is_const(n.value) and n.value.value is None]
+    ok = bool(sc) and all(gw.dominated_by_nodes(gw.node_of(d), [gw.node_of(c) for c in sc]) for d in drop)
+    chk.ob("O7.9", "final drain precedes dropping the sampler", ok, drop[0] if drop else wd, "")
+    res = [n for n in walk_body(wx) if isinstance(n, ast.Call) and isinstance(n.func, ast.Attribute) and n.func.attr in ("result", "exception") and flow._is(n.func.value, flow.future, wdefs)]
+    # the drains that no wait for the executor can follow (an additional, earlier drain - e.g. on entry to drive() - is harmless) still cover every path to the barrier message
+    late = [c for c in sc if not any(gw.path_exists(gw.node_of(c), gw.node_of(r)) for r in res)]
+    opaque = [c.func.attr for c in walk_body(wx) if isinstance(c, ast.Call) and is_self_attr(c.func) and c.func.attr in wm and c.func.attr not in ship and c.func.attr != wd.name
+              and any(isinstance(x, ast.Attribute) and x.attr in ("result", "exception") for x in ast.walk(wm[c.func.attr]))]
+    if not res and opaque:
+        chk.unknown("O7.9", f"the wait for the executor may happen inside `{opaque[0]}`, which is not analysed together with `{wd.name}`", wd)
+    else:
+        ok = bool(res) and bool(late) and all(gw.dominated_by_nodes(gw.node_of(j), [gw.node_of(c) for c in late]) for j in jp)
+        chk.ob("O7.9", "the executor has finished before the final drain", ok, late[0] if late else (sc[0] if sc else wd), "" if ok else "no drain after the wait for the executor covers every path to JoinPointReached")
+    # periodic drain in the wake-up handler
+    wk = wm.get("receiveMsg_WakeupMessage")
+    if wk is None:
+        raise AnchorMissing("Worker.receiveMsg_WakeupMessage")
+    kx = _Expand(drv, W, keep=ship | {wd.name}).function(wk)
+    pdr = [c for c in walk_body(kx) if isinstance(c, ast.Call) and is_self_attr(c.func) and c.func.attr in ship]
+    chk.ob("O7.9", "periodic drain on wake-up", bool(pdr), wk, "")
+    drain_before_drive_rule(chk, "O7.9", drv)
+    # periodic shipping while the executor runs: the wake-up that finds it still running (the one that re-arms the timer) has shipped what was queued so far
+    gk = cfg_of(kx)
+    rearm = [c for c in walk_body(kx) if isinstance(c, ast.Call) and is_self_attr(c.func) and c.func.attr == "wakeupAfter"]
+    if not rearm:
+        chk.unknown("O7.9", "the wake-up handler does not re-arm its timer itself (wakeupAfter not found in it or its helpers)", wk)
+    else:
+        ok = bool(pdr) and all(gk.dominated_by_nodes(gk.node_of(r), [gk.node_of(d) for d in pdr]) for r in rearm)
+        chk.ob("O7.9", "the wake-up that finds the executor still running ships the queued samples before it re-arms the timer", ok, rearm[0],
+               "" if ok else "the periodic wake-up re-arms the timer without shipping: samples pile up in the bounded queue until the task ends (and are dropped once it is full)",
+               key=f"{_D}:Worker.receiveMsg_WakeupMessage:periodic-drain-before-rearm")
+    repl = [n for n in walk_body(wx) if isinstance(n, ast.Assign) and any(is_self_attr(t, flow.sampler) for t in n.targets) and isinstance(n.value, ast.Call)]
+    others = [n for f_ in wm.values() if f_ is not wd and f_.name != "__init__" and f_.name not in inlined for n in walk_body(f_)
+              if isinstance(n, ast.Assign) and any(is_self_attr(t, flow.sampler) for t in n.targets)]
+    if not repl and not others:
+        chk.unknown("O7.9", f"no replacement of the sampler located in `{wd.name}` and its helpers", wd)
+    else:
+        chk.ob("O7.9", "the sampler is replaced only in drive()", bool(repl) and not others, others[0] if others else wd, "" if not others else f"`{short(others[0], 50)}` in {source.qualname(others[0])}")
+
+
+# ---- O7.11 ---------------------------------------------------------------------------------------------------------------------------------------------------
+def _sample_type_position(drv, arity):
+    """index of the element that carries a metrics.SampleType in the tuples the schedule generator yields: the element read from a property whose returns mention SampleType"""
+    props = {f.name for c in drv.classes() for f in drv.methods(c).values() if _is_property(f)
+             and any(isinstance(r, ast.Return) and r.value is not None and any(isinstance(x, ast.Attribute) and (dotted(x) or "").split(".")[-2:-1] == ["SampleType"] for x in ast.walk(r.value)) for r in walk_body(f))}
+    pos = None
+    for f in drv.functions():
+        ys = [y.value for y in walk_body(f) if isinstance(y, ast.Yield) and isinstance(y.value, ast.Tuple) and len(y.value.elts) == arity]
+        if not ys:
+            continue
+        here = None
+        for y in ys:
+            p = {i for i, e in enumerate(y.elts) if isinstance(e, ast.Attribute) and e.attr in props}
+            here = p if here is None else here & p
+        if here:
+            pos = here if pos is None else pos | here
+    return sorted(pos or ())
+
+
+def _o711(chk, drv, ex, holders):
+    h_attr, h_par, _ = holders
+    EX = source.enclosing_class(ex)
+    S, q, drain_fn, add_fn, qcalls = _sampler_roles(drv)
+    exx = _Expand(drv, EX).function(ex)
+    edefs = local_defs(exx)
+    mine = {a for c, a in h_attr if c == EX.name}
+    if not mine:
+        raise AnchorMissing("the attribute of AsyncExecutor that holds the worker's sampler (followed from Worker through the constructors)")
+
+    def is_sampler(e, depth=0):
+        if isinstance(e, ast.Name) and e.id in edefs and depth < 4:
+            return is_sampler(edefs[e.id], depth + 1)
+        return is_self_attr(e) and e.attr in mine
+
+    def is_add(fn_, depth=0):
+        if isinstance(fn_, ast.Name) and fn_.id in edefs and depth < 4:
+            return is_add(edefs[fn_.id], depth + 1)
+        return isinstance(fn_, ast.Attribute) and fn_.attr == add_fn.name and is_sampler(fn_.value)
+
+    adds = [c for c in walk_body(exx) if isinstance(c, ast.Call) and is_add(c.func)]
+    if not adds:
+        raise AnchorMissing(f"the call of Sampler.{add_fn.name} on the executor's sampler in AsyncExecutor.__call__")
+    # the role chain: record field sample_type <- sample attribute A <- Sample.__init__ parameter Q <- parameter P of the sampler's add <- the executor's argument
+    SP, SA = drv.cls("SamplePostprocessor"), drv.cls("Sample")
+    spx = _Expand(drv, SP).function(drv.methods(SP)["__call__"])
+    reads = {a.attr for c in ast.walk(spx) if isinstance(c, ast.Call) and last_attr(c.func) == "put_value_cluster_level" and source.is_const(arg_of(c, 0, "name")) and arg_of(c, 0, "name").value in _RECORDS
+             for a in [arg_of(c, 6, "sample_type")] if isinstance(a, ast.Attribute)}
+    sinit = drv.methods(SA).get("__init__")
+    ctor = [c for p in qcalls(add_fn, ("put_nowait", "put")) for c in [local_defs(add_fn).get(p.args[0].id, p.args[0]) if p.args and isinstance(p.args[0], ast.Name) else (p.args[0] if p.args else None)]
+            if isinstance(c, ast.Call) and last_attr(c.func) == "Sample"]
+    P = None
+    if len(reads) == 1 and sinit is not None and len(ctor) == 1:
+        A = next(iter(reads))
+        Q = [n.value.id for n in walk_body(sinit) if isinstance(n, ast.Assign) and any(is_self_attr(t, A) for t in n.targets) and isinstance(n.value, ast.Name) and n.value.id in params_of(sinit)]
+        if len(Q) == 1:
+            a = source.bind_args(ctor[0], sinit).get(Q[0])
+            if isinstance(a, ast.Name) and a.id in params_of(add_fn):
+                P = a.id
+    if P is None:
+        chk.unknown("O7.11", f"the parameter of Sampler.{add_fn.name} that becomes the sample type of the records is not recognised (sample attribute read by the post-processor: {sorted(reads)})", add_fn)
+        return
+    for c in adds:
+        L = source.enclosing(c, (ast.AsyncFor, ast.For))
+        targets = (L.target.elts if isinstance(L.target, ast.Tuple) else [L.target]) if L is not None else []
+        pos = _sample_type_position(drv, len(targets)) if targets else []
+        a = source.bind_args(c, add_fn).get(P)
+        if L is None or len(pos) != 1 or a is None:
+            chk.unknown("O7.11", f"request loop / position of the sample type in what the schedule yields / argument for `{P}` not recognised (positions {pos})", c)
+            continue
+        want = targets[pos[0]]
+        r = a
+        while isinstance(r, ast.Name) and r.id in edefs and not (isinstance(want, ast.Name) and r.id == want.id):
+            r = edefs[r.id]
+        ok = isinstance(r, ast.Name) and isinstance(want, ast.Name) and r.id == want.id
+        chk.ob("O7.11", "sampler.add receives the sample type yielded by the schedule for this request", ok, c,
+               f"`{P}` := {short(a, 40)}; the schedule's sample type is loop target {pos[0]} (`{u(want)}`) of {[u(t) for t in targets]}")
+
+
 def run(chk):
     repo = chk.repo
     drv, met, rc = repo.module(_D), repo.module(_M), repo.module(_R)
     chk.use(drv, met, rc)
     chk.explanation = (
-        "Decides the shipping / post-processing / hand-over skeleton: the sampler's drain returns everything it dequeues; the drain is read once per "
-        "shipment and is both payload and return value; the driver appends the whole payload; post-processing works on a snapshot taken before the reset; "
-        "each kept sample yields exactly three records fed from the attribute of the same name (plus one service_time per dependent timing, fed from the timing); "
-        "throughput is computed from the unfiltered list; every hand-over clears the driver's store after post-processing and is consumed by exactly one bulk_add; "
-        "a two-fact abstract interpretation of the Worker's handlers (may the load generator still add samples / may the sampler hold undrained samples) shows that every "
-        "replacement or drop of the sampler follows a drain taken after the completion of the load generator was observed."
+        "Decides the shipping / post-processing / hand-over skeleton. Roles (sampler / future / queue / raw-list / buffer attributes, ship routine, update routine, message fields, "
+        "callbacks) are derived from data flow, routines are analysed together with the helper methods they call, and wherever the question is about values the EXTRACTED routine is "
+        "evaluated on representative inputs (no repository code is run): the sampler's drain dequeues through the queue's own get until Empty and returns all of it; the ship "
+        "routine reads the draining property once and what it read is the payload that arrives in the driver's raw list, appended whole; post-processing hands the whole pending "
+        "list to the post-processor after the attribute was reset; for batches of six samples and factors 1, 2, 3 every kept sample yields exactly the three records with the "
+        "values / task / operation / type / sample type / times / client id of that sample, every dependent timing of a kept sample one service_time record fed from the timing, "
+        "nothing for dropped samples, and the throughput calculation receives the whole batch; every hand-over clears the driver's store after post-processing and travels through "
+        "the actor callback, the message and the race-control handler into exactly one bulk_add on every path; the in-memory and ES stores keep / send / clear their buffers "
+        "exactly once; a two-fact abstract interpretation of the Worker's handlers (may the load generator still add samples / may the sampler hold undrained samples) shows that "
+        "every replacement or drop of the sampler follows a drain taken after the completion of the load generator was observed."
     )
     chk.not_decided = ("at-least/at-most-once under message loss, ES bulk partial failures, the executor-thread/actor-thread race on the queue; the worker analysis assumes the "
                        "driver's protocol (Drive is sent only to workers waiting at a join point; the handlers that deliver the executor's inputs run before the first executor).")
-    W = drv.cls("Worker")
-    wm = drv.methods(W)
-    S = drv.cls("Sampler")
-    sm = drv.methods(S)
-    D = drv.cls("Driver")
-    dm = drv.methods(D)
-    SP = drv.cls("SamplePostprocessor")
-    spc = drv.methods(SP).get("__call__")
-
     # ---- O7.1 drain / add ---------------------------------------------------------------------------------------------
     chk.rule("O7.1", "the sampler's drain loops until queue.Empty and returns every dequeued element; add drops only on queue.Full", 3,
              "any burst of samples: some are dequeued and dropped, or an unrelated error silently loses a sample")
-    smp = sm.get("samples")
-    add = sm.get("add")
-    if smp is None or add is None:
-        raise AnchorMissing("Sampler.samples / Sampler.add")
-    gets = [n for n in walk_body(smp) if isinstance(n, ast.Call) and last_attr(n.func) in ("get_nowait", "get")]
-    ok = False
-    detail = "no get_nowait"
-    if len(gets) == 1:
-        p = source.parent(gets[0])
-        acc = p.func.value.id if isinstance(p, ast.Call) and last_attr(p.func) == "append" and isinstance(p.func.value, ast.Name) else None
-        loop = source.enclosing(gets[0], ast.While)
-        tr = source.enclosing(gets[0], ast.Try)
-        rets = [n for n in walk_body(smp) if isinstance(n, ast.Return)]
-        ok = acc is not None and loop is not None and isinstance(loop.test, ast.Constant) and loop.test.value is True and not guards(gets[0], stop=loop) \
-            and tr is not None and len(tr.handlers) == 1 and last_attr(tr.handlers[0].type) == "Empty" \
-            and len(rets) == 1 and isinstance(rets[0].value, ast.Name) and rets[0].value.id == acc \
-            and not any(isinstance(x, (ast.Break, ast.Continue)) for x in ast.walk(loop))
-        detail = f"accumulator={acc}"
-    chk.ob("O7.1", "drain: while True: acc.append(q.get_nowait()) until Empty; return acc", ok, smp, detail)
-    puts = [n for n in walk_body(add) if isinstance(n, ast.Call) and last_attr(n.func) in ("put_nowait", "put")]
-    ok = False
-    if len(puts) == 1:
-        tr = source.enclosing(puts[0], ast.Try)
-        ok = tr is not None and all(last_attr(h.type) == "Full" for h in tr.handlers) and not guards(puts[0]) and isinstance(puts[0].args[0], ast.Call) and last_attr(puts[0].args[0].func) == "Sample"
-    chk.ob("O7.1", "add: put_nowait(Sample(...)) unconditionally, dropping only on queue.Full", ok, add, "")
-    is_prop = any((dotted(d) or "") == "property" for d in smp.decorator_list)
-    chk.ob("O7.1", "drain is exposed as a property (every read drains)", is_prop, smp, "")
+    _o71(chk, drv)
 
     # ---- O7.2 drain read once -----------------------------------------------------------------------------------------------
     chk.rule("O7.2", "in the ship routine the draining property is evaluated exactly once and that value is both the UpdateSamples payload and the return value", 2,
              "two reads: the second read drains samples that are never sent")
-    ss = wm.get("send_samples")
-    if ss is None:
-        raise AnchorMissing("Worker.send_samples")
-    reads = [n for n in walk_body(ss) if isinstance(n, ast.Attribute) and n.attr == "samples" and is_self_attr(n.value, "sampler")]
-    ok = len(reads) == 1 and isinstance(source.parent(reads[0]), ast.Assign) and isinstance(source.parent(reads[0]).targets[0], ast.Name)
-    var = source.parent(reads[0]).targets[0].id if ok else None
-    chk.ob("O7.2", "single read of self.sampler.samples into a local", ok, reads[0] if reads else ss, f"{len(reads)} read(s)")
-    sends = [c for c in source.calls_in(ss, attr="send") if len(c.args) >= 2 and isinstance(c.args[1], ast.Call) and last_attr(c.args[1].func) == "UpdateSamples"]
-    ok = bool(sends) and var is not None and any(isinstance(a, ast.Name) and a.id == var for a in sends[0].args[1].args + [k.value for k in sends[0].args[1].keywords])
-    if ok:
-        gs = guards(sends[0])
-        # only guards allowed: sampler present, len(samples) > 0
-        ok = all(pol and (is_self_attr(t, "sampler") or u(t) in (f"len({var}) > 0", var)) for t, pol in gs)
-    chk.ob("O7.2", "the drained value is the UpdateSamples payload (guarded only by emptiness)", ok, sends[0] if sends else ss, short(sends[0], 70) if sends else "no UpdateSamples send")
-    # other reads of the draining property in the package
-    for m in repo.all_modules():
-        for n in ast.walk(m.tree):
-            if isinstance(n, ast.Attribute) and n.attr == "samples" and isinstance(n.ctx, ast.Load) and (is_self_attr(n.value, "sampler") or (isinstance(n.value, ast.Name) and n.value.id == "sampler")):
-                if source.enclosing_func(n) is not ss:
-                    chk.ob("O7.2", "no other reader of the draining property", False, n, f"{source.qualname(n)} drains the sampler: those samples are never shipped")
+    ships, _, holders = _o72(chk, repo, drv)
+
+    # ---- O7.4 snapshot-and-reset (evaluated first: it names the raw list) ------------------------------------------------------------------------
+    chk.rule("O7.4", "post-processing takes a local reference to the raw list, resets the attribute, then processes the local (in that order)", 1,
+             "samples arriving during post-processing are lost, or a batch is processed twice")
+    _, spp_attr, pps, raw_attr = _o74(chk, drv)
 
     # ---- O7.3 driver appends the whole payload ---------------------------------------------------------------------------------
     chk.rule("O7.3", "the driver appends the whole UpdateSamples payload to the raw list", 2, "samples lost between worker and post-processing")
-    us = dm.get("update_samples")
-    if us is None:
-        raise AnchorMissing("Driver.update_samples")
-    p = params_of(us)[1]
-    adds = [n for n in walk_body(us) if isinstance(n, ast.AugAssign) and is_self_attr(n.target, "raw_samples") and isinstance(n.op, ast.Add) and isinstance(n.value, ast.Name) and n.value.id == p]
-    adds += [n for n in walk_body(us) if isinstance(n, ast.Call) and u(n.func) == "self.raw_samples.extend" and isinstance(n.args[0], ast.Name) and n.args[0].id == p]
-    ok = len(adds) == 1 and all(pol and u(t) in (f"len({p}) > 0", p) for t, pol in guards(adds[0]))
-    chk.ob("O7.3", "raw_samples += samples", ok, adds[0] if adds else us, "")
-    h = drv.methods(drv.cls("DriverActor")).get("receiveMsg_UpdateSamples")
-    ok = h is not None and any(isinstance(c, ast.Call) and last_attr(c.func) == "update_samples" and u(c.args[0]) == f"{params_of(h)[1]}.samples" for c in walk_body(h))
-    chk.ob("O7.3", "handler passes msg.samples", ok, h if h is not None else drv.tree, "")
-
-    # ---- O7.4 snapshot-and-reset ---------------------------------------------------------------------------------------------------
-    chk.rule("O7.4", "post-processing takes a local reference to the raw list, resets the attribute, then processes the local (in that order)", 1,
-             "samples arriving during post-processing are lost, or a batch is processed twice")
-    pp = dm.get("post_process_samples")
-    if pp is None:
-        raise AnchorMissing("Driver.post_process_samples")
-    g = cfg_of(pp)
-    snap = [n for n in walk_body(pp) if isinstance(n, ast.Assign) and is_self_attr(n.value, "raw_samples") and isinstance(n.targets[0], ast.Name)]
-    tup = [n for n in walk_body(pp) if isinstance(n, ast.Assign) and isinstance(n.value, ast.Tuple) and isinstance(n.targets[0], ast.Tuple) and is_self_attr(n.value.elts[0], "raw_samples")]
-    reset = [n for n in walk_body(pp) if isinstance(n, ast.Assign) and any(is_self_attr(t, "raw_samples") for t in n.targets) and isinstance(n.value, ast.List) and not n.value.elts]
-    use = [n for n in walk_body(pp) if isinstance(n, ast.Call) and is_self_attr(n.func, "sample_post_processor")]
-    ok = False
-    if tup and use:
-        lv = tup[0].targets[0].elts[0].id
-        ok = isinstance(tup[0].value.elts[1], ast.List) and u(use[0].args[0]) == lv and g.dominated_by_nodes(g.node_of(use[0]), [g.node_of(tup[0])])
-    elif snap and reset and use:
-        lv = snap[0].targets[0].id
-        ok = g.dominated_by_nodes(g.node_of(reset[0]), [g.node_of(snap[0])]) and g.dominated_by_nodes(g.node_of(use[0]), [g.node_of(reset[0])]) and u(use[0].args[0]) == lv \
-            and not guards(snap[0]) and not guards(reset[0])
-    chk.ob("O7.4", "snapshot; reset; process(snapshot)", ok, pp, f"snapshot={len(snap) + len(tup)} reset={len(reset)} use={len(use)}")
+    _o73(chk, drv, raw_attr, ships)
 
     # ---- O7.5 three records per sample -------------------------------------------------------------------------------------------------
     chk.rule("O7.5", "under the down-sampling guard exactly three put_value calls {latency, service_time, processing_time}, each fed from the sample attribute of the same "
              "name, plus one service_time per dependent timing fed from the timing; task/operation/type/sample-type/times/client id come from the same object; "
              "throughput is computed from the unfiltered list", 12,
              "records missing/duplicated per request, or a record filed under the wrong task / operation type / sample type / client")
-    if spc is None:
-        raise AnchorMissing("SamplePostprocessor.__call__")
-    rawp = params_of(spc)[1]
-    loops = [n for n in walk_body(spc) if isinstance(n, ast.For) and isinstance(n.iter, ast.Call) and last_attr(n.iter.func) == "enumerate" and u(n.iter.args[0]) == rawp]
-    if not loops:
-        raise AnchorMissing("loop over enumerate(raw_samples) in SamplePostprocessor.__call__")
-    L = loops[0]
-    idx, svar = L.target.elts[0].id, L.target.elts[1].id
-    puts = [n for n in ast.walk(L) if isinstance(n, ast.Call) and last_attr(n.func) == "put_value_cluster_level"]
-    main = [c for c in puts if source.enclosing(c, ast.For) is L]
-    dep = [c for c in puts if source.enclosing(c, ast.For) is not L]
-    names = sorted(source.const(arg_of(c, 0, "name")) if isinstance(arg_of(c, 0, "name"), ast.Constant) else "?" for c in main)
-    chk.ob("O7.5", "exactly three records per kept sample", names == ["latency", "processing_time", "service_time"], L, f"names={names}")
-    for c in main:
-        gs = guards(c, stop=L)
-        ok = len(gs) == 1 and gs[0][1] and u(gs[0][0]) in (f"{idx} % self.downsample_factor == 0",)
-        chk.ob("O7.5", "record guarded only by the down-sampling test", ok, c, f"guards={[(u(t), p) for t, p in gs]}")
-    defs = {}
-    for n in ast.walk(L):
-        if isinstance(n, ast.Assign) and len(n.targets) == 1 and isinstance(n.targets[0], ast.Name):
-            defs[n.targets[0].id] = n.value
-
-    def field_ok(c, obj, name):
-        exp = {
-            "value": f"convert.seconds_to_ms({obj}.{name})",
-            "task": f"{obj}.task.name",
-            "operation": f"{obj}.operation_name",
-            "operation_type": f"{obj}.operation_type",
-            "sample_type": f"{obj}.sample_type",
-            "absolute_time": f"{obj}.absolute_time",
-            "relative_time": f"{obj}.relative_time",
-        }
-        bad = []
-        for k, e in exp.items():
-            pos = {"value": 1}.get(k)
-            a = arg_of(c, pos, k)
-            if a is None or u(a) != e:
-                bad.append(f"{k}={u(a) if a is not None else None} (expected {e})")
-        un = arg_of(c, 2, "unit")
-        if un is None or not source.is_const(un, "ms"):
-            bad.append("unit != 'ms'")
-        return bad
-
-    for c in main:
-        nm = arg_of(c, 0, "name")
-        if not isinstance(nm, ast.Constant):
-            chk.ob("O7.5", "record name is a constant", False, c, "")
-            continue
-        bad = field_ok(c, svar, nm.value)
-        chk.ob("O7.5", f"{nm.value} record fed from the sample's {nm.value} and identity fields", not bad, c, "; ".join(bad))
-        md = arg_of(c, None, "meta_data")
-        mdv = defs.get(md.id) if isinstance(md, ast.Name) else md
-        ok = mdv is not None and "client_id" in u(mdv) or (isinstance(mdv, ast.Call) and any(isinstance(a, ast.Name) and "client_id" in u(defs.get(a.id, a)) for a in mdv.args))
-        chk.ob("O7.5", f"{nm.value} record carries the client id", bool(ok), c, "")
-    cid = [v for k, v in defs.items() if isinstance(v, ast.Dict) and any(source.is_const(kk, "client_id") for kk in v.keys)]
-    ok = bool(cid) and u(cid[0].values[0]) == f"{svar}.client_id"
-    chk.ob("O7.5", "client id meta data is the sample's client id", ok, cid[0] if cid else L, "")
-    # dependent timings
-    dloops = [n for n in ast.walk(L) if isinstance(n, ast.For) and n is not L and u(n.iter) == f"{svar}.dependent_timings"]
-    ok = len(dloops) == 1 and len(dep) == 1 and source.enclosing(dep[0], ast.For) is dloops[0]
-    chk.ob("O7.5", "one record per dependent timing", ok, dloops[0] if dloops else L, f"loops={len(dloops)} puts={len(dep)}")
-    if ok:
-        tv = dloops[0].target.id
-        c = dep[0]
-        nm = arg_of(c, 0, "name")
-        bad = field_ok(c, tv, "service_time") + ([] if source.is_const(nm, "service_time") else ["name != service_time"])
-        chk.ob("O7.5", "dependent record fed from the timing itself", not bad, c, "; ".join(bad))
-        gs = guards(c, stop=dloops[0])
-        chk.ob("O7.5", "dependent record unconditional within its loop", not gs and not any(isinstance(x, (ast.Break, ast.Continue)) for x in ast.walk(dloops[0])), c, "")
-        # the dependent loop is under the same down-sampling guard as the three records
-        chk.ob("O7.5", "dependent timings under the same down-sampling guard", [u(t) for t, p in guards(dloops[0], stop=L)] == [f"{idx} % self.downsample_factor == 0"], dloops[0], "")
-    tc = [n for n in walk_body(spc) if isinstance(n, ast.Call) and last_attr(n.func) == "calculate" and "throughput_calculator" in u(n.func)]
-    ok = len(tc) == 1 and u(tc[0].args[0]) == rawp and L not in list(source.ancestors(tc[0]))
-    # the parameter is not reassigned / filtered before
-    reass = [n for n in walk_body(spc) if isinstance(n, (ast.Assign, ast.AugAssign)) and any(isinstance(t, ast.Name) and t.id == rawp for t in (n.targets if isinstance(n, ast.Assign) else [n.target]))]
-    chk.ob("O7.5", "throughput computed from the unfiltered list", ok and not reass, tc[0] if tc else spc, short(tc[0], 60) if tc else "")
-    # no early exit in the sample loop
-    ok = not any(isinstance(x, (ast.Break, ast.Return)) for x in source.walk_local(L, include_root=False))
-    chk.ob("O7.5", "sample loop has no early exit", ok, L, "")
-    # the only early return of the routine is for an empty batch
-    rets = [n for n in walk_body(spc) if isinstance(n, ast.Return)]
-    ok = all(any(pol and u(t) in (f"len({rawp}) == 0", f"not {rawp}") for t, pol in guards(r)) for r in rets)
-    chk.ob("O7.5", "early return only for an empty batch", ok, rets[0] if rets else spc, "")
+    _o75(chk, drv, met)
 
     from rules.C01 import executor_wiring
 
@@ -521,145 +2621,22 @@ def run(chk):
     chk.rule("O7.6", "every to_externalizable call in the driver passes clear=True, is preceded on every path by post-processing, and its value flows through the "
              "message field `metrics` into exactly one bulk_add on the race-control side, for TaskFinished and for BenchmarkComplete", 8,
              "multi-step race: step k's records are handed over again at every later boundary (duplicates), or the last batch of a step is not handed over")
-    jr = dm.get("joinpoint_reached")
-    mv = dm.get("move_to_next_task")
-    te = [c for c in package_calls(repo, "to_externalizable") if source.enclosing_class(c) is D]
-    if len(te) < 2:
-        raise AnchorMissing("to_externalizable calls in Driver")
-    gj = cfg_of(jr)
-    ppc = [c for c in source.calls_in(jr, attr="post_process_samples")]
-    for c in te:
-        cl = arg_of(c, 0, "clear")
-        chk.ob("O7.6", "hand-over clears the driver's store", cl is not None and source.is_const(cl, True), c, f"clear={u(cl) if cl is not None else 'default False'}")
-        fn = source.enclosing_func(c)
-        if fn is jr:
-            site = c
-        else:
-            calls = [x for x in source.calls_in(jr, attr=fn.name)]
-            site = calls[0] if calls else None
-            allcallers = [x for x in package_calls(repo, fn.name)]
-            if not all(source.enclosing_func(x) is jr for x in allcallers):
-                site = None
-        ok = site is not None and bool(ppc) and gj.dominated_by_nodes(gj.node_of(site), [gj.node_of(p_) for p_ in ppc])
-        chk.ob("O7.6", "post-processing precedes the hand-over", ok, c, f"in {fn.name}")
-        # value flows into the driver-actor callback
-        asg = source.parent(c)
-        ok = isinstance(asg, ast.Assign) and isinstance(asg.targets[0], ast.Name)
-        if ok:
-            v = asg.targets[0].id
-            cb = [x for x in source.calls_in(fn) if last_attr(x.func) in ("on_task_finished", "on_benchmark_complete") and x.args and isinstance(x.args[0], ast.Name) and x.args[0].id == v]
-            ok = len(cb) == 1
-            chk.ob("O7.6", "externalised metrics handed to the driver actor", ok, c, short(cb[0], 60) if cb else "value not passed on")
-            gf = cfg_of(fn)
-            if cb:
-                chk.ob("O7.6", "hand-over callback reached on every normal path after externalising", gf.must_pass(gf.node_of(c), [gf.node_of(cb[0])], normal_only=True), cb[0], "")
-    DA = drv.cls("DriverActor")
-    dam = drv.methods(DA)
-    BA = rc.cls("BenchmarkActor")
-    bam = rc.methods(BA)
-    CO = rc.cls("BenchmarkCoordinator")
-    com = rc.methods(CO)
-    for cbname, msgname, hname, coname in (("on_task_finished", "TaskFinished", "receiveMsg_TaskFinished", "on_task_finished"),
-                                            ("on_benchmark_complete", "BenchmarkComplete", "receiveMsg_BenchmarkComplete", "on_benchmark_complete")):
-        cb = dam.get(cbname)
-        ok = False
-        if cb is not None:
-            p0 = params_of(cb)[1]
-            ctor = [n for n in walk_body(cb) if isinstance(n, ast.Call) and last_attr(n.func) == msgname]
-            ok = len(ctor) == 1 and ctor[0].args and isinstance(ctor[0].args[0], ast.Name) and ctor[0].args[0].id == p0 and isinstance(source.parent(ctor[0]), ast.Call) \
-                and last_attr(source.parent(ctor[0]).func) == "send" and not guards(source.parent(ctor[0]))
-        chk.ob("O7.6", f"{msgname}: metrics parameter becomes the message's first field, sent unconditionally", ok, cb if cb is not None else DA, "")
-        mc = drv.cls(msgname)
-        init = drv.methods(mc).get("__init__")
-        ok = init is not None and any(isinstance(n, ast.Assign) and any(is_self_attr(t, "metrics") for t in n.targets) and isinstance(n.value, ast.Name) and n.value.id == params_of(init)[1] for n in walk_body(init))
-        chk.ob("O7.6", f"{msgname}.metrics := first constructor parameter", ok, init if init is not None else mc, "")
-        h = bam.get(hname)
-        ok = False
-        if h is not None:
-            mp = params_of(h)[1]
-            calls = [n for n in walk_body(h) if isinstance(n, ast.Call) and last_attr(n.func) == coname and n.args and u(n.args[0]) == f"{mp}.metrics"]
-            ok = len(calls) == 1 and not guards(calls[0])
-        chk.ob("O7.6", f"{hname} passes msg.metrics to the coordinator exactly once", ok, h if h is not None else BA, "")
-        co = com.get(coname)
-        ok = False
-        if co is not None:
-            cp = params_of(co)[1]
-            ba = [n for n in walk_body(co) if isinstance(n, ast.Call) and last_attr(n.func) == "bulk_add"]
-            ok = len(ba) == 1 and u(ba[0].args[0]) == cp and not guards(ba[0])
-        chk.ob("O7.6", f"coordinator.{coname}: exactly one unconditional bulk_add(metrics)", ok, co if co is not None else CO, "")
+    final = _o76(chk, repo, drv, rc, met, spp_attr, pps)
 
     # ---- O7.7 in-memory store -----------------------------------------------------------------------------------------------------------------
     chk.rule("O7.7", "in-memory store: clear replaces the list after the snapshot reference is taken and the snapshot is what is serialised; bulk_add adds every document", 3,
              "hand-over returns an empty/incomplete list, or drops documents when restoring")
-    IM = met.cls("InMemoryMetricsStore")
-    te_f = met.methods(IM).get("to_externalizable")
-    if te_f is None:
-        raise AnchorMissing("InMemoryMetricsStore.to_externalizable")
-    gt = cfg_of(te_f)
-    snap = [n for n in walk_body(te_f) if isinstance(n, ast.Assign) and is_self_attr(n.value, "docs") and isinstance(n.targets[0], ast.Name)]
-    reset = [n for n in walk_body(te_f) if isinstance(n, ast.Assign) and any(is_self_attr(t, "docs") for t in n.targets)]
-    ok = len(snap) == 1 and len(reset) == 1 and gt.dominated_by_nodes(gt.node_of(reset[0]), [gt.node_of(snap[0])]) and not guards(snap[0])
-    chk.ob("O7.7", "snapshot before reset", ok, te_f, "")
-    if reset:
-        gs = guards(reset[0])
-        cp = params_of(te_f)[1]
-        chk.ob("O7.7", "reset iff clear", len(gs) == 1 and gs[0][1] and u(gs[0][0]) == cp and isinstance(reset[0].value, ast.List) and not reset[0].value.elts, reset[0], "")
-    dumps = [n for n in walk_body(te_f) if isinstance(n, ast.Call) and last_attr(n.func) == "dumps"]
-    ok = bool(dumps) and bool(snap) and u(dumps[0].args[0]) == snap[0].targets[0].id
-    chk.ob("O7.7", "the snapshot is serialised", ok, dumps[0] if dumps else te_f, "")
-    MS = met.cls("MetricsStore")
-    ba = met.methods(MS).get("bulk_add")
-    if ba is None:
-        raise AnchorMissing("MetricsStore.bulk_add")
-    loops = [n for n in walk_body(ba) if isinstance(n, ast.For)]
-    ok = len(loops) == 1 and len(loops[0].body) == 1 and isinstance(loops[0].body[0], ast.Expr) and isinstance(loops[0].body[0].value, ast.Call) and u(loops[0].body[0].value.func) == "self._add" \
-        and isinstance(loops[0].target, ast.Name) and u(loops[0].body[0].value.args[0]) == loops[0].target.id and "loads" in u(loops[0].iter)
-    chk.ob("O7.7", "bulk_add adds every restored document", ok, ba, "")
-    addf = met.methods(IM).get("_add")
-    ok = addf is not None and any(isinstance(n, ast.Call) and u(n.func) == "self.docs.append" and u(n.args[0]) == params_of(addf)[1] and not guards(n) for n in walk_body(addf))
-    chk.ob("O7.7", "_add appends the document", ok, addf if addf is not None else IM, "")
-    # _put_metric reaches _add on every normal path
-    pm = met.methods(MS).get("_put_metric")
-    gp = cfg_of(pm)
-    addc = [gp.node_of(n) for n in walk_body(pm) if isinstance(n, ast.Call) and u(n.func) == "self._add"]
-    chk.ob("O7.7", "_put_metric stores the record on every normal path", bool(addc) and gp.must_pass(gp.entry, addc), pm, "")
+    _o77(chk, met)
 
     # ---- O7.10 ES-backed store buffer -------------------------------------------------------------------------------------------------------------------------
     chk.rule("O7.10", "ES-backed store: every record is appended to the buffer; flush sends the whole buffer through the guarded bulk call and empties it only after the send returned; "
              "its hand-over is None (records go to Elasticsearch directly, nothing to add twice)", 4,
              "records dropped before being sent, or re-sent on the next flush (duplicates) with the ES metrics store")
-    EM = met.cls("EsMetricsStore")
-    emm = met.methods(EM)
-    ea = emm.get("_add")
-    ok = ea is not None and any(isinstance(n, ast.Call) and u(n.func) == "self._docs.append" and u(n.args[0]) == params_of(ea)[1] and not guards(n) for n in walk_body(ea))
-    chk.ob("O7.10", "_add appends the record to the buffer", ok, ea if ea is not None else EM, "")
-    fl = emm.get("flush")
-    if fl is None:
-        raise AnchorMissing("EsMetricsStore.flush")
-    gfl = cfg_of(fl)
-    bi = [n for n in walk_body(fl) if isinstance(n, ast.Call) and last_attr(n.func) == "bulk_index"]
-    rs = [n for n in walk_body(fl) if isinstance(n, (ast.Assign, ast.AugAssign)) and any(is_self_attr(x, "_docs") and isinstance(x.ctx, ast.Store) for t in (n.targets if isinstance(n, ast.Assign) else [n.target]) for x in ast.walk(t))]
-    ok = len(bi) == 1 and arg_of(bi[0], 1, "items") is not None and u(arg_of(bi[0], 1, "items")) == "self._docs" and [u(t) for t, pol in guards(bi[0]) if pol] == ["self._docs"]
-    chk.ob("O7.10", "flush sends the whole buffer (guarded only by non-emptiness)", ok, bi[0] if bi else fl, "")
-    ok = len(rs) == 1 and isinstance(rs[0], ast.Assign) and isinstance(rs[0].value, ast.List) and not rs[0].value.elts and bool(bi) and not gfl.path_exists(gfl.node_of(rs[0]), gfl.node_of(bi[0])) \
-        and gfl.must_pass(gfl.node_of(bi[0]), [gfl.node_of(rs[0])], normal_only=True)
-    chk.ob("O7.10", "buffer emptied after (and only after) the send returned", ok, rs[0] if rs else fl, "")
-    flush_no_fallible_gap(chk, "O7.10", met)
-    te2 = emm.get("to_externalizable")
-    ok = te2 is not None and all(isinstance(n.value, ast.Constant) and n.value.value is None for n in walk_body(te2) if isinstance(n, ast.Return))
-    chk.ob("O7.10", "hand-over representation is None", ok, te2 if te2 is not None else EM, "")
-    ba2 = met.methods(met.cls("MetricsStore"))["bulk_add"]
-    ok = any(isinstance(n, ast.If) and u(n.test) == params_of(ba2)[1] for n in ba2.body)
-    chk.ob("O7.10", "bulk_add ignores an empty (None) hand-over", ok, ba2, "")
+    _o710(chk, met)
 
     # ---- O7.8 store before exit ----------------------------------------------------------------------------------------------------------------
     chk.rule("O7.8", "BenchmarkComplete handling hands the message's metrics to the coordinator on every path (unconditionally)", 1, "the final batch is lost")
-    h = bam.get("receiveMsg_BenchmarkComplete")
-    gh = cfg_of(h)
-    mp_ = params_of(h)[1]
-    st = [n for n in walk_body(h) if isinstance(n, ast.Call) and last_attr(n.func) == "on_benchmark_complete" and n.args and u(n.args[0]) == f"{mp_}.metrics"]
-    ok = len(st) == 1 and gh.must_pass(gh.entry, [gh.node_of(st[0])]) and not guards(st[0])
-    chk.ob("O7.8", "the final metrics of BenchmarkComplete reach the coordinator on every path", ok, st[0] if st else h, "")
+    _o78(chk, rc, final)
 
     # ---- O7.9 samples precede the barrier message ----------------------------------------------------------------------------------------------
     chk.rule("O7.9", "on the join-point path the final drain (send_samples) is unconditional, precedes send(JoinPointReached) and precedes dropping the sampler; every path on which the "
@@ -667,39 +2644,7 @@ def run(chk):
              "periodically while it runs", 2,
              "last step of any race (or the last sample of any step, or of any round of a parallel element with more tasks than clients): samples queued after the last periodic "
              "drain are never shipped")
-    wd = wm.get("drive")
-    gw = cfg_of(wd)
-    jp = [c for c in source.calls_in(wd, attr="send") if len(c.args) >= 2 and isinstance(c.args[1], ast.Call) and last_attr(c.args[1].func) == "JoinPointReached"]
-    sc = [c for c in source.calls_in(wd, attr="send_samples")]
-    if not jp:
-        raise AnchorMissing("send(JoinPointReached) in Worker.drive")
-    ok = bool(sc) and gw.dominated_by_nodes(gw.node_of(jp[0]), [gw.node_of(c) for c in sc])
-    chk.ob("O7.9", "send_samples() on every path to JoinPointReached", ok, jp[0], "" if ok else "the final drain is conditional or missing")
-    drop = [n for n in walk_body(wd) if isinstance(n, ast.Assign) and any(is_self_attr(t, "sampler") for t in n.targets) and source.is_const(n.value) and n.value.value is None]
-    ok = bool(sc) and all(gw.dominated_by_nodes(gw.node_of(d), [gw.node_of(c) for c in sc]) for d in drop)
-    chk.ob("O7.9", "final drain precedes dropping the sampler", ok, drop[0] if drop else wd, "")
-    res = [n for n in walk_body(wd) if isinstance(n, ast.Call) and last_attr(n.func) == "result"]
-    # the drains that no wait for the executor can follow (an additional, earlier drain - e.g. on entry to drive() - is harmless) still cover every path to the barrier message
-    late = [c for c in sc if not any(gw.path_exists(gw.node_of(c), gw.node_of(r)) for r in res)]
-    ok = bool(res) and bool(late) and gw.dominated_by_nodes(gw.node_of(jp[0]), [gw.node_of(c) for c in late])
-    chk.ob("O7.9", "the executor has finished before the final drain", ok, late[0] if late else (sc[0] if sc else wd), "" if ok else "no drain after the wait for the executor covers every path to JoinPointReached")
-    # periodic drain in the wake-up handler
-    wk = wm.get("receiveMsg_WakeupMessage")
-    ok = any(isinstance(n, ast.Call) and last_attr(n.func) == "send_samples" for n in walk_body(wk))
-    chk.ob("O7.9", "periodic drain on wake-up", ok, wk, "")
-    flow = drain_before_drive_rule(chk, "O7.9", drv)
-    # periodic shipping while the executor runs: the wake-up that finds it still running (the one that re-arms the timer) has shipped what was queued so far
-    gk = cfg_of(wk)
-    ship = flow.drainers()
-    pdr = [c for c in walk_body(wk) if isinstance(c, ast.Call) and is_self_attr(c.func) and c.func.attr in ship]
-    rearm = [c for c in walk_body(wk) if isinstance(c, ast.Call) and is_self_attr(c.func) and c.func.attr == "wakeupAfter"]
-    ok = bool(rearm) and bool(pdr) and all(gk.dominated_by_nodes(gk.node_of(r), [gk.node_of(d) for d in pdr]) for r in rearm)
-    chk.ob("O7.9", "the wake-up that finds the executor still running ships the queued samples before it re-arms the timer", ok, rearm[0] if rearm else wk,
-           "" if ok else "the periodic wake-up re-arms the timer without shipping: samples pile up in the bounded queue until the task ends (and are dropped once it is full)",
-           key=f"{_D}:Worker.receiveMsg_WakeupMessage:periodic-drain-before-rearm")
-    repl = [n for n in walk_body(wd) if isinstance(n, ast.Assign) and any(is_self_attr(t, "sampler") for t in n.targets) and isinstance(n.value, ast.Call)]
-    others = [n for f_ in wm.values() if f_ is not wd and f_.name != "__init__" for n in walk_body(f_) if isinstance(n, ast.Assign) and any(is_self_attr(t, "sampler") for t in n.targets)]
-    chk.ob("O7.9", "the sampler is replaced only in drive()", bool(repl) and not others, others[0] if others else wd, "")
+    _o79(chk, drv)
 
     # ---- O7.11 the sample type a record carries ----------------------------------------------------------------------------------------------
     chk.rule("O7.11", "the sample type of a record is the one the schedule computed for that request, and the clock it is computed from starts at the task's start, "
@@ -708,16 +2653,7 @@ def run(chk):
     from rules.C05 import timer_before_rampup_rule
 
     ex, ge, *_ = timer_before_rampup_rule(chk, "O7.11", drv, "the warm-up clock of client i starts ramp*i/total late: its normal samples are labelled warm-up")
-    # the loop variable that carries the schedule's sample type is what the sampler receives
-    loops_ = [n for n in walk_body(ex) if isinstance(n, ast.AsyncFor)]
-    tnames = [e.id for e in (loops_[0].target.elts if isinstance(loops_[0].target, ast.Tuple) else [loops_[0].target]) if isinstance(e, ast.Name)]
-    adds = [c for c in source.calls_in(ex, attr="add") if u(c.func).endswith("sampler.add")]
-    if not adds:
-        raise AnchorMissing("sampler.add in AsyncExecutor.__call__")
-    for c in adds:
-        st = [a for a in c.args if isinstance(a, ast.Name) and "sample_type" in a.id]
-        ok = len(st) == 1 and st[0].id in tnames
-        chk.ob("O7.11", "sampler.add receives the sample type yielded by the schedule for this request", ok, c, f"{[a.id for a in st]} of loop targets {tnames}")
+    _o711(chk, drv, ex, holders)
 
 
 from sa.selftest import V  # noqa: E402
@@ -772,4 +2708,230 @@ VARIANTS = [
     V("tuple-swap snapshot", "keep", _D, "        raw_samples = self.raw_samples\n        self.raw_samples = []\n        self.sample_post_processor(raw_samples)", "        raw_samples, self.raw_samples = self.raw_samples, []\n        self.sample_post_processor(raw_samples)"),
     V("extend instead of +=", "keep", _D, "            self.raw_samples += samples", "            self.raw_samples.extend(samples)"),
     V("positional clear", "keep", _D, "        m = self.metrics_store.to_externalizable(clear=True)\n        self.driver_actor.on_task_finished(m, waiting_period)", "        m = self.metrics_store.to_externalizable(True)\n        self.driver_actor.on_task_finished(m, waiting_period)"),
+]
+
+
+# texts shared by the round-2 variants
+_V_DEP_LOOP = """                for timing in sample.dependent_timings:
+                    self.metrics_store.put_value_cluster_level(
+                        name="service_time",
+                        value=convert.seconds_to_ms(timing.service_time),
+                        unit="ms",
+                        task=timing.task.name,
+                        operation=timing.operation_name,
+                        operation_type=timing.operation_type,
+                        sample_type=timing.sample_type,
+                        absolute_time=timing.absolute_time,
+                        relative_time=timing.relative_time,
+                        meta_data=self.merge(timing.request_meta_data, client_id_meta_data),
+                    )
+"""
+_V_DEP_HELPER = """    def _store_sub_requests(self, request, cid_meta):
+        for t in request.dependent_timings:
+            self.metrics_store.put_value_cluster_level(
+                name="service_time",
+                value=convert.seconds_to_ms(t.service_time),
+                unit="ms",
+                task=t.task.name,
+                operation=t.operation_name,
+                operation_type=t.operation_type,
+                sample_type=t.sample_type,
+                absolute_time=t.absolute_time,
+                relative_time=t.relative_time,
+                meta_data=self.merge(t.request_meta_data, cid_meta),
+            )
+
+    def merge(self, *args):
+"""
+
+_V_THREE = """                self.metrics_store.put_value_cluster_level(
+                    name="latency",
+                    value=convert.seconds_to_ms(sample.latency),
+                    unit="ms",
+                    task=sample.task.name,
+                    operation=sample.operation_name,
+                    operation_type=sample.operation_type,
+                    sample_type=sample.sample_type,
+                    absolute_time=sample.absolute_time,
+                    relative_time=sample.relative_time,
+                    meta_data=meta_data,
+                )
+
+                self.metrics_store.put_value_cluster_level(
+                    name="service_time",
+                    value=convert.seconds_to_ms(sample.service_time),
+                    unit="ms",
+                    task=sample.task.name,
+                    operation=sample.operation_name,
+                    operation_type=sample.operation_type,
+                    sample_type=sample.sample_type,
+                    absolute_time=sample.absolute_time,
+                    relative_time=sample.relative_time,
+                    meta_data=meta_data,
+                )
+
+                self.metrics_store.put_value_cluster_level(
+                    name="processing_time",
+                    value=convert.seconds_to_ms(sample.processing_time),
+                    unit="ms",
+                    task=sample.task.name,
+                    operation=sample.operation_name,
+                    operation_type=sample.operation_type,
+                    sample_type=sample.sample_type,
+                    absolute_time=sample.absolute_time,
+                    relative_time=sample.relative_time,
+                    meta_data=meta_data,
+                )
+"""
+
+
+def _v_table(rows):
+    return f"""                for record_name, seconds in ({rows}):
+                    self.metrics_store.put_value_cluster_level(
+                        record_name,
+                        convert.seconds_to_ms(seconds),
+                        "ms",
+                        task=sample.task.name,
+                        operation=sample.operation_name,
+                        operation_type=sample.operation_type,
+                        sample_type=sample.sample_type,
+                        absolute_time=sample.absolute_time,
+                        relative_time=sample.relative_time,
+                        meta_data=meta_data,
+                    )
+"""
+
+
+_V_GETATTR = """                for record_name in ("latency", "service_time", "processing_time"):
+                    self.metrics_store.put_value_cluster_level(
+                        name=record_name,
+                        value=convert.seconds_to_ms(getattr(sample, record_name)),
+                        unit="ms",
+                        task=sample.task.name,
+                        operation=sample.operation_name,
+                        operation_type=sample.operation_type,
+                        sample_type=sample.sample_type,
+                        absolute_time=sample.absolute_time,
+                        relative_time=sample.relative_time,
+                        meta_data=meta_data,
+                    )
+"""
+
+_V_SHIP = """    def send_samples(self):
+        if self.sampler:
+            samples = self.sampler.samples
+            if len(samples) > 0:
+                self.send(self.driver_actor, UpdateSamples(self.worker_id, samples))
+            return samples
+        return None
+"""
+_V_SHIP_HELPER = """    def send_samples(self):
+        if not self.sampler:
+            return None
+        drained = self.sampler.samples
+        self._ship(drained)
+        return drained
+
+    def _ship(self, batch):
+        if batch:
+            self.send(self.driver_actor, UpdateSamples(client_id=self.worker_id, samples=batch))
+"""
+_V_SHIP_HELPER_BAD = _V_SHIP_HELPER.replace("samples=batch))", "samples=self.sampler.samples))")
+
+_V_JP_ARM = """            # clients that don't execute tasks don't need to care about waiting
+            if self.executor_future is not None:
+                self.executor_future.result()
+            self.send_samples()
+            self.cancel.clear()
+            self.complete.clear()
+            self.executor_future = None
+            self.sampler = None
+            self.send(self.driver_actor, JoinPointReached(self.worker_id, task_allocations))
+"""
+_V_JP_HELPER = """    def _arrive_at_join_point(self, allocations):
+        # clients that don't execute tasks don't need to care about waiting
+        if self.executor_future is not None:
+            self.executor_future.result()
+        self.send_samples()
+        self.cancel.clear()
+        self.complete.clear()
+        self.executor_future = None
+        self.sampler = None
+        barrier = JoinPointReached(self.worker_id, allocations)
+        self.send(self.driver_actor, barrier)
+
+    def at_joinpoint(self):
+"""
+
+_V_LOOP_HEAD = "        for idx, sample in enumerate(raw_samples):\n            if idx % self.downsample_factor == 0:\n"
+_V_FLUSH = """        if self._docs:
+            sw = time.StopWatch()
+            sw.start()
+            self._client.bulk_index(index=self._index, items=self._docs)
+            sw.stop()
+"""
+_V_DONE = "            elif self.executor_future is not None and self.executor_future.done():"
+_V_FIN_HELPER = "    def _executor_finished(self):\n        return self.executor_future is not None and self.executor_future.done()\n\n    def at_joinpoint(self):\n"
+_V_ADD_CALL = "                self.sampler.add(\n                    self.task,\n                    self.client_id,\n                    sample_type,"
+_V_TF_SEND = "        self.send(self.benchmark_actor, TaskFinished(metrics, next_task_scheduled_in))"
+_V_HANDOVER = "        m = self.metrics_store.to_externalizable(clear=True)\n        self.driver_actor.on_task_finished(m, waiting_period)"
+
+VARIANTS += [
+    # ---- hardening round 2: refactored shapes the re-stated obligations accept (keep) and the same shapes with the defect inside (break) -------------------------------
+    V("R2 sampler attribute of the worker renamed", "keep", _D, r"self\.sampler\b(?=( = None| = Sampler|,\n                    self\.cancel|:\n            samples|\.samples))", "self.active_sampler", count=6, regex=True),
+    [V("R2 queue attribute of the sampler renamed", "keep", _D, "self.q = queue.Queue", "self.pending = queue.Queue"), V("", "keep", _D, "self.q.put_nowait(", "self.pending.put_nowait("), V("", "keep", _D, "self.q.get_nowait()", "self.pending.get_nowait()")],
+    V("R2 drain: try inside the loop, break on Empty", "keep", _D, "        try:\n            while True:\n                samples.append(self.q.get_nowait())\n        except queue.Empty:\n            pass\n        return samples",
+      "        while True:\n            try:\n                item = self.q.get_nowait()\n                samples.append(item)\n            except queue.Empty:\n                break\n        return samples"),
+    V("R2 ship routine: guard clause, helper, keyword arguments", "keep", _D, _V_SHIP, _V_SHIP_HELPER),
+    V("R2 raw list of the driver renamed", "keep", _D, r"self\.raw_samples", "self.pending_samples", count=4, regex=True),
+    V("R2 the three records from a table (positional name / value / unit)", "keep", _D, _V_THREE, _v_table('("latency", sample.latency), ("service_time", sample.service_time), ("processing_time", sample.processing_time)')),
+    V("R2 the three records by getattr over the record names", "keep", _D, _V_THREE, _V_GETATTR),
+    [V("R2 dependent timings in a helper with other parameter names", "keep", _D, _V_DEP_LOOP, "                self._store_sub_requests(sample, client_id_meta_data)\n"), V("", "keep", _D, "    def merge(self, *args):\n", _V_DEP_HELPER)],
+    V("R2 index loop instead of enumerate", "keep", _D, _V_LOOP_HEAD, "        for idx in range(len(raw_samples)):\n            sample = raw_samples[idx]\n            if idx % self.downsample_factor == 0:\n"),
+    V("R2 kept samples by slice", "keep", _D, _V_LOOP_HEAD, "        for sample in raw_samples[:: self.downsample_factor]:\n            if True:\n"),
+    V("R2 guard clause `continue` in the sample loop", "keep", _D, _V_LOOP_HEAD, "        for idx, sample in enumerate(raw_samples):\n            if idx % self.downsample_factor != 0:\n                continue\n            if True:\n"),
+    V("R2 message built before the send, keyword arguments", "keep", _D, _V_TF_SEND, "        finished = TaskFinished(metrics=metrics, next_task_scheduled_in=next_task_scheduled_in)\n        self.send(self.benchmark_actor, finished)"),
+    [V("R2 message field renamed on both sides", "keep", _D, "class TaskFinished:\n    def __init__(self, metrics, next_task_scheduled_in):\n        self.metrics = metrics", "class TaskFinished:\n    def __init__(self, request_metrics, next_task_scheduled_in):\n        self.request_metrics = request_metrics"),
+     V("", "keep", _R, "        self.coordinator.on_task_finished(msg.metrics)", "        handed_over = msg.request_metrics\n        self.coordinator.on_task_finished(handed_over)")],
+    V("R2 hand-over without a local", "keep", _D, _V_HANDOVER, "        self.driver_actor.on_task_finished(self.metrics_store.to_externalizable(clear=True), waiting_period)"),
+    [V("R2 in-memory snapshot in a helper", "keep", _M, "        docs = self.docs\n        if clear:\n            self.docs = []\n        compressed", "        docs = self._take(clear)\n        compressed"),
+     V("", "keep", _M, "    def to_externalizable(self, clear=False):\n        docs = self._take", "    def _take(self, reset):\n        current = self.docs\n        if reset:\n            self.docs = []\n        return current\n\n    def to_externalizable(self, clear=False):\n        docs = self._take")],
+    V("R2 ES flush: local alias of the buffer for test and send", "keep", _M, _V_FLUSH, _V_FLUSH.replace("        if self._docs:\n", "        docs = self._docs\n        if docs:\n").replace("items=self._docs", "items=docs")),
+    V("R2 ES add: += instead of append", "keep", _M, "    def _add(self, doc):\n        self._docs.append(doc)", "    def _add(self, doc):\n        self._docs += [doc]"),
+    [V("R2 join-point arm of drive() in a helper, barrier message in a local", "keep", _D, _V_JP_ARM, "            self._arrive_at_join_point(task_allocations)\n"), V("", "keep", _D, "    def at_joinpoint(self):\n", _V_JP_HELPER)],
+    [V("R2 completion test of the wake-up handler in a helper", "keep", _D, _V_DONE, "            elif self._executor_finished():"), V("", "keep", _D, "    def at_joinpoint(self):\n", _V_FIN_HELPER)],
+    V("R2 executor: sampler through a local alias, sample type through a local", "keep", _D, _V_ADD_CALL, "                sink = self.sampler\n                kind = sample_type\n                sink.add(\n                    self.task,\n                    self.client_id,\n                    kind,"),
+    [V("R2 drive() renamed", "keep", _D, r"self\.drive\(\)", "self.drive_on()", count=4, regex=True), V("", "keep", _D, "    def drive(self):\n        assert self.config", "    def drive_on(self):\n        assert self.config")],
+    V("R2 joinpoint_reached renamed", "keep", _D, r"\bjoinpoint_reached\b", "on_join_point", count=3, regex=True),
+    V("R2 ship routine renamed", "keep", _D, r"send_samples", "ship_samples", count=4, regex=True),
+    V("R2 table: latency row fed with the service time", "break", _D, _V_THREE, _v_table('("latency", sample.service_time), ("service_time", sample.service_time), ("processing_time", sample.processing_time)'), "O7.5"),
+    V("R2 table: processing_time row missing", "break", _D, _V_THREE, _v_table('("latency", sample.latency), ("service_time", sample.service_time)'), "O7.5"),
+    [V("R2 helper: dependent record takes the parent's operation type", "break", _D, _V_DEP_LOOP, "                self._store_sub_requests(sample, client_id_meta_data)\n", "O7.5"),
+     V("", "break", _D, "    def merge(self, *args):\n", _V_DEP_HELPER.replace("operation_type=t.operation_type", "operation_type=request.operation_type"))],
+    [V("R2 helper: dependent timings recorded for dropped samples too", "break", _D, _V_DEP_LOOP, "", "O7.5"),
+     V("", "break", _D, "            if idx % self.downsample_factor == 0:\n                final_sample_count += 1", "            self._store_sub_requests(sample, {\"client_id\": sample.client_id})\n            if idx % self.downsample_factor == 0:\n                final_sample_count += 1"),
+     V("", "break", _D, "    def merge(self, *args):\n", _V_DEP_HELPER)],
+    V("R2 index loop reads the first sample", "break", _D, _V_LOOP_HEAD, "        for idx in range(len(raw_samples)):\n            sample = raw_samples[0]\n            if idx % self.downsample_factor == 0:\n", "O7.5"),
+    V("R2 down-sampling counts from 1", "break", _D, "        for idx, sample in enumerate(raw_samples):", "        for idx, sample in enumerate(raw_samples, 1):", "O7.5"),
+    V("R2 slice starts at 1", "break", _D, _V_LOOP_HEAD, "        for sample in raw_samples[1 :: self.downsample_factor]:\n            if True:\n", "O7.5"),
+    V("R2 client id of the first sample", "break", _D, "                client_id_meta_data = {\"client_id\": sample.client_id}", "                client_id_meta_data = {\"client_id\": raw_samples[0].client_id}", "O7.5"),
+    V("R2 ship helper drains a second time", "break", _D, _V_SHIP, _V_SHIP_HELPER_BAD, "O7.2"),
+    V("R2 ship helper ships only batches of more than one sample", "break", _D, _V_SHIP, _V_SHIP_HELPER.replace("        if batch:\n", "        if len(batch) > 1:\n"), "O7.2"),
+    V("R2 update routine drops the first sample of a payload", "break", _D, "            self.raw_samples += samples\n", "            self.raw_samples += samples[1:]\n", "O7.3"),
+    V("R2 TaskFinished sent only when a waiting period follows", "break", _D, _V_TF_SEND, "        if next_task_scheduled_in > 0:\n            self.send(self.benchmark_actor, TaskFinished(metrics, next_task_scheduled_in))", "O7.6"),
+    V("R2 TaskFinished carries the waiting period in the metrics field", "break", _D, _V_TF_SEND, "        self.send(self.benchmark_actor, TaskFinished(next_task_scheduled_in, metrics))", "O7.6"),
+    V("R2 handler local takes the wrong message field", "break", _R, "        self.coordinator.on_task_finished(msg.metrics)", "        handed_over = msg.next_task_scheduled_in\n        self.coordinator.on_task_finished(handed_over)", "O7.6"),
+    V("R2 coordinator adds the task metrics twice", "break", _R, "        self.metrics_store.bulk_add(new_metrics)\n\n    def on_benchmark_complete", "        self.metrics_store.bulk_add(new_metrics)\n        self.metrics_store.bulk_add(new_metrics)\n\n    def on_benchmark_complete", "O7.6"),
+    V("R2 hand-over without a local and without clear", "break", _D, _V_HANDOVER, "        self.driver_actor.on_task_finished(self.metrics_store.to_externalizable(), waiting_period)", "O7.6"),
+    V("R2 in-memory swap keeps the documents when clearing", "break", _M, "        docs = self.docs\n        if clear:\n            self.docs = []", "        docs = self.docs\n        self.docs = docs if clear else []", "O7.7"),
+    V("R2 bulk_add skips the first restored document", "break", _M, "            for doc in pickle.loads(zlib.decompress(memento)):\n                self._add(doc)", "            for doc in pickle.loads(zlib.decompress(memento))[1:]:\n                self._add(doc)", "O7.7"),
+    V("R2 ES flush sends a copy that misses the newest record", "break", _M, "            self._client.bulk_index(index=self._index, items=self._docs)", "            self._client.bulk_index(index=self._index, items=self._docs[:-1])", "O7.10"),
+    V("R2 ES flush: buffer emptied before the aliased send", "break", _M, _V_FLUSH, _V_FLUSH.replace("        if self._docs:\n", "        docs = self._docs\n        self._docs = []\n        if docs:\n").replace("items=self._docs", "items=docs"), "O7.10"),
+    V("R2 ES add replaces the buffer", "break", _M, "    def _add(self, doc):\n        self._docs.append(doc)", "    def _add(self, doc):\n        self._docs = [doc]", "O7.10"),
+    [V("R2 join-point helper: final drain only when a future exists", "break", _D, _V_JP_ARM, "            self._arrive_at_join_point(task_allocations)\n", "O7.9"),
+     V("", "break", _D, "    def at_joinpoint(self):\n", _V_JP_HELPER.replace("            self.executor_future.result()\n        self.send_samples()", "            self.executor_future.result()\n            self.send_samples()"))],
+    [V("R2 helper completion test, final drain of drive() removed (F23 in the refactored shape)", "break", _D, _V_DONE, "            elif self._executor_finished():", "O7.9"), V("", "break", _D, "    def at_joinpoint(self):\n", _V_FIN_HELPER),
+     V("", "break", _D, "                self.send_samples()\n                self.sampler = Sampler(", "                self.sampler = Sampler(")],
+    V("R2 executor: the sample-type local is bound to a constant", "break", _D, _V_ADD_CALL, "                kind = metrics.SampleType.Normal\n                self.sampler.add(\n                    self.task,\n                    self.client_id,\n                    kind,", "O7.11"),
+    V("R2 Sampler.add hands the client id to the Sample as its sample type", "break", _D, "                    task,\n                    sample_type,\n                    meta_data,\n                    latency,", "                    task,\n                    client_id,\n                    meta_data,\n                    latency,", "O7.11"),
 ]
